@@ -12,1288 +12,2951 @@ Definition show_fres (r : fres) : string :=
   end.
 Definition check (rs : list rune) : string := digest (show_fres (format_res rs)).
 Definition full (rs : list rune) : string := show_fres (format_res rs).
-Eval vm_compute in ("<<<M1466>>>" ++ check (runes_of_ascii "// top
-options // c0
+Eval vm_compute in ("<<<M3586>>>" ++ check (runes_of_ascii "// top
+options
+    // c0
 { // c1
-StringPrefixLenType =
-    // c3
-u8 // c4
-; // c5a
-  // c5b
-ArrayPrefixLenType // c6a
-  // c6b
-= // c7a
-  // c7b
-u32 ;
+LittleEndian
+    // c2
+= // c3a
+  // c3b
+true // c4
+; // c5
+StringPrefixLenType // c6
+=
+    // c7
+u8 // c8a
+  // c8b
+;
     // c9
-FixedStringPadFromLeft =
-    // c11
-false // c12a
-  // c12b
-; // c13
-FixedStringPadChar = // c15
-' ' // c16a
+ArrayPrefixLenType // c10a
+  // c10b
+= u16 ; FixedStringPadChar // c14
+=
+    // c15
+'0' // c16a
   // c16b
-; }
-    // c18
-packet Party // c20a
-  // c20b
-{ repeat
-    // c22
-i16 // c23a
+;
+    // c17
+JavaPackage = // c19
+""com.example.msg"" // c20
+; // c21
+GoPackage = // c23a
   // c23b
-Qty
-    // c24
-,
+""msg"" ;
     // c25
-repeat // c26
-string Tail // c28a
-  // c28b
-,
-    // c29
-i8 OrderId , // c32
-i8 msgKind // c34
-,
+GoModule = ""example.com/msg""
+    // c28
+; }
+    // c30
+MetaData // c31a
+  // c31b
+Meta { u32 // c34
+SeqNum
     // c35
-} packet // c37a
+`sequence number` , // c37a
   // c37b
-Ack { Party // c40
-, repeat
-    // c42
-InRef20 // c43a
-  // c43b
-{ Party
+char[ // c38
+8 // c39a
+  // c39b
+]
+    // c40
+Symbol // c41
+`symbol` // c42a
+  // c42b
+, // c43
+zchar[ 5
     // c45
-, // c46a
-  // c46b
-int8 // c47a
+] // c46
+ZSym // c47a
   // c47b
-tag7 // c48
-, char[
-    // c50
-5 ]
-    // c52
-OrderId // c53a
-  // c53b
-, // c54
-zchar[ // c55
-7 // c56a
-  // c56b
-]
+`z symbol` // c48
+,
+    // c49
+string Note , // c52
+Symbol
+    // c53
+AltSymbol `alias of symbol` // c55
+, f64
     // c57
-Tail // c58
-, // c59a
-  // c59b
-char[]
-    // c60
-count // c61a
+Price
+    // c58
+, // c59
+} packet // c61a
   // c61b
-,
+Inner
     // c62
-InPrice45 // c63
-{
-    // c64
-Party ,
-    // c66
-char[ // c67
-1 // c68
-] // c69
-Px // c70
-, } ,
-    // c73
-} , // c75
-char[
-    // c76
-12 ] price // c79a
+{ // c63
+u8 a // c65
+, // c66a
+  // c66b
+i16 b , // c69a
+  // c69b
+string c
+    // c71
+, // c72
+} // c73
+packet Inner2 // c75
+{ // c76a
+  // c76b
+u8 a2
+    // c78
+, // c79a
   // c79b
-, // c80a
-  // c80b
-int8 sym // c82a
-  // c82b
-,
+char[
+    // c80
+3 ] // c82
+c2
     // c83
-} packet
-    // c85
-Reject { // c87a
-  // c87b
-repeat // c88
-InPrice47 // c89
-{ Party // c91a
-  // c91b
-,
-    // c92
-} // c93a
-  // c93b
-, zchar[ // c95a
-  // c95b
-4
-    // c96
-]
-    // c97
+, // c84a
+  // c84b
+} packet // c86
+Logon {
+    // c88
+u8 // c89
 x
-    // c98
-, repeat Ack , zchar[ 2 // c104
-]
+    // c90
+, // c91
+string
+    // c92
+user
+    // c93
+, repeat u16
+    // c96
+codes
+    // c97
+, } // c99a
+  // c99b
+packet // c100
+Logout // c101a
+  // c101b
+{ // c102
+u16 reason ,
     // c105
-Ref , repeat // c108a
-  // c108b
-Party
-    // c109
-, // c110
-} // c111
+}
+    // c106
 packet
-    // c112
-Cancel // c113a
+    // c107
+Empty // c108
+{ } // c110a
+  // c110b
+root // c111
+packet // c112a
+  // c112b
+Msg // c113a
   // c113b
 { // c114a
   // c114b
-Reject // c115
-, // c116
-repeat
-    // c117
-string f1 // c119a
-  // c119b
-, // c120
-uint16 // c121a
-  // c121b
-OrderId
-    // c122
-, // c123
-u8 Acct // c125a
-  // c125b
-, int8 // c127a
-  // c127b
-msgKind , // c129a
-  // c129b
-} root packet // c132a
-  // c132b
-Fill { u8 // c135a
-  // c135b
-count ,
-    // c137
-char[] tag7 // c139
-,
-    // c140
-zchar[ // c141a
-  // c141b
-7 // c142a
-  // c142b
-] // c143a
-  // c143b
-Acct
-    // c144
-, // c145
-u32 // c146
-OrderId
-    // c147
-, // c148
-u32
-    // c149
-Note // c150
-@lengthOf( // c151a
-  // c151b
-Body
-    // c152
-) // c153a
-  // c153b
-, // c154
-match // c155a
-  // c155b
-OrderId
-    // c156
-as
-    // c157
-Body // c158a
-  // c158b
-{ // c159a
-  // c159b
-106
-    // c160
-: // c161a
-  // c161b
-Cancel // c162
-, // c163
-196 : // c165
-Reject // c166
-,
-    // c167
-74 // c168a
-  // c168b
-:
-    // c169
-Party ,
-    // c171
-75 // c172
-: Ack , // c175a
-  // c175b
-} , // c177a
-  // c177b
-} // c178a
-  // c178b
-")).
-Eval vm_compute in ("<<<M189>>>" ++ check (runes_of_ascii "packet i64_ { match
-    BodyLength as u8x {
-[ 0123456789 ]: leftPad ""{,}"" :	lengthOf	,
-007 :	A, [  ""a\""b"" ] :float , //x
-} , @calculatedFrom( // `tick` ""quote"" 'q'
-""" ++ [233]%N ++ runes_of_ascii "t" ++ [233]%N ++ runes_of_ascii """ )// a // b
-body
-u8x
-    , packetx`say ""hi""`, // @lengthOf(
-zchar[
-    42 ]MetaDataX `line1
-line2`
-    ,
-    f32 // @lengthOf(
-matchKey, roots{
-    // " ++ [27880; 37322]%N ++ runes_of_ascii "
-    u128 @lengthOf( T ) , char[
-// " ++ [128512]%N ++ runes_of_ascii " emoji
-// packet A { u8 x, }
-42
-    ]	x_y_z	@calculatedFrom( """" ) ,repeat float64 stringy// " ++ [128512]%N ++ runes_of_ascii " emoji
-`` ,
-    }
-,u16 // @lengthOf(
-metadata
-    `tab	here` ,@rightPad	( '0'
-    // " ++ [128512]%N ++ runes_of_ascii " emoji
-    )
-@tag( 7 )
-// " ++ [27880; 37322]%N ++ runes_of_ascii "
-// " ++ [27880; 37322]%N ++ runes_of_ascii "
-repeat uint16 // @lengthOf(
-x_y_z `say ""hi""`, repeat
-    roots{ // a // b
-Packet {float{ repeat asx , asx
-Foo
-    , }
-,
-    }	,} ,@tag( 42 )//x
-u `line1
-line2` , // `tick` ""quote"" 'q'
-}  packet int { } options {
-    // `tick` ""quote"" 'q'
-    Logon
-    = ""{,}"" ; } packet	As{// packet A { u8 x, }
-@calculatedFrom( // @lengthOf(
-"""" ) @rightPad ( '\x00'
-// " ++ [128512]%N ++ runes_of_ascii " emoji
-//	t
-) @leftPad (
-'0' ) repeat Logon
-f32a	, @lengthOf(
-// a // b
-// a // b
-rootA ) @tag(42 )
-    @lengthOf(
-// " ++ [128512]%N ++ runes_of_ascii " emoji
-//
-u
-//	t
-// a // b
-)repeat o u8x `u8 x,` , @tag( 7) zchar[
-    //x
-    42] asx @lengthOf(
-    trueish ) , @lengthOf( trueish ) int16
-stringy
-,
-zchar f32a
-    `two words` , string u8x@calculatedFrom( ""\n""
-    )  , _x `
-` , @lengthOf( i8i8  ) i64_@lengthOf(
-    uint8x )
-    , uint32 rootA `it's` , }
-")).
-Eval vm_compute in ("<<<M238>>>" ++ check (runes_of_ascii "
-packet
-    tag{repeat
-    stringy {	repeat
-i32 lengthOf
-, // trailing space 
-string msg_type // " ++ [27880; 37322]%N ++ runes_of_ascii "
-@calculatedFrom( // " ++ [128512]%N ++ runes_of_ascii " emoji
-""// no comment"" ) `" ++ [233]%N ++ runes_of_ascii "` ,
-    zchar
-    { x @calculatedFrom( """ ++ [28040; 24687]%N ++ runes_of_ascii """ )
-    ,repeat u8x len , zchar[ 255 ] i8i8 , } ,
-x @calculatedFrom( ""CRC32"")
-`` ,} , packetx
-//	t
-//	t
-u8x, @calculatedFrom( ""packet"" )
-zchar[  007] body
-@calculatedFrom( ""CRC32"" )
-    , @lengthOf( x_y_z/// triple
-) char[]
-int
-    `" ++ [28040; 24687; 31867; 22411]%N ++ runes_of_ascii "` , zchar[ 42 ]
-Logon@calculatedFrom( ""// no comment""
-    ) ,
-    int8
-f32a , }packet  As { @calculatedFrom(
-""it's""
-)  int64 msg_type	@calculatedFrom( ""a\""b"" )`it's`, i8i8 pack , tag {i64 _x ,match As as f32a { // trailing space 
-007 : _x ,0123456789 : metadata
-    , }
-, }, @lengthOf( body )repeat
 u8
-f32a
-    `` , char[] Pad `line1
-line2` ,
-    @lengthOf(msg_type)  string len , @lengthOf(	a1) @tag(00
-) @rightPad('\x00' ) char[ 65535 ] Header ,// trailing space 
-@calculatedFrom(
-    // a // b
-    ""1""
-) @calculatedFrom(
-""a\\""  )
-    // @lengthOf(
-    @lengthOf( body
-//
-// " ++ [27880; 37322]%N ++ runes_of_ascii "
+    // c115
+su8
+    // c116
+,
+    // c117
+uint8
+    // c118
+luint8
+    // c119
+, u16 // c121
+su16 , uint16 // c124
+luint16 // c125
+, // c126a
+  // c126b
+u32
+    // c127
+su32 // c128
+,
+    // c129
+uint32 // c130a
+  // c130b
+luint32 // c131a
+  // c131b
+, // c132
+u64 // c133a
+  // c133b
+su64 // c134
+, // c135
+uint64 // c136a
+  // c136b
+luint64
+    // c137
+, // c138a
+  // c138b
+i8 // c139a
+  // c139b
+si8 , int8 // c142
+lint8 ,
+    // c144
+i16 // c145
+si16 , int16 lint16
+    // c149
+, i32 si32 // c152
+, int32 // c154a
+  // c154b
+lint32
+    // c155
+, // c156a
+  // c156b
+i64 si64
+    // c158
+,
+    // c159
+int64 lint64
+    // c161
+,
+    // c162
+f32
+    // c163
+sf32 // c164a
+  // c164b
+,
+    // c165
+float32 // c166a
+  // c166b
+lfloat32 // c167
+, f64 // c169
+sf64 // c170
+, // c171a
+  // c171b
+float64 // c172
+lfloat64
+    // c173
+, char[ // c175a
+  // c175b
+6 // c176
+] // c177a
+  // c177b
+fsplain // c178a
+  // c178b
+, // c179a
+  // c179b
+@leftPad // c180a
+  // c180b
+( '0' ) char[
+    // c184
+4 // c185
+]
+    // c186
+fs0
+    // c187
+, // c188a
+  // c188b
+@rightPad (
+    // c190
+'0' ) char[ // c193a
+  // c193b
+5 // c194
+]
+    // c195
+fs1 // c196
+, @leftPad ( // c199
+' ' // c200a
+  // c200b
+) // c201
+char[ 6
+    // c203
+]
+    // c204
+fs2
+    // c205
+, // c206a
+  // c206b
+@rightPad
+    // c207
+( // c208a
+  // c208b
+' ' ) // c210a
+  // c210b
+char[ 7 // c212a
+  // c212b
+] // c213
+fs3 , @leftPad // c216a
+  // c216b
+( // c217
+'\x00' // c218a
+  // c218b
+) char[ // c220
+8 // c221
+] // c222
+fs4 // c223
+, // c224
+@rightPad (
+    // c226
+'\x00' // c227
+) // c228
+char[ // c229
+9 // c230
+] fs5 // c232a
+  // c232b
+, // c233
+@leftPad // c234
+(
+    // c235
+) // c236a
+  // c236b
+char[ // c237
+10 // c238a
+  // c238b
+] fs6 // c240
+,
+    // c241
+@rightPad // c242
+( // c243a
+  // c243b
 )
-    i8
-x_y_z
-, }
-root packet a1 {
+    // c244
+char[
+    // c245
+11 ]
+    // c247
+fs7
+    // c248
+, // c249a
+  // c249b
+zchar[
+    // c250
+7
+    // c251
+] // c252a
+  // c252b
+fz
+    // c253
+, @leftPad // c255a
+  // c255b
+(
+    // c256
+'0' // c257
+) // c258a
+  // c258b
+zchar[ 3 // c260
+] // c261a
+  // c261b
+fzl0
+    // c262
+,
+    // c263
+string // c264a
+  // c264b
+s1 // c265
+`doc` // c266a
+  // c266b
+, // c267
+char[]
+    // c268
+s2
+    // c269
+,
+    // c270
+Inner // c271
+, // c272a
+  // c272b
+Sub
+    // c273
+{ // c274
+u8 // c275a
+  // c275b
+q
+    // c276
+, string // c278a
+  // c278b
+w , // c280
+Deep // c281
+{ // c282
+u16
+    // c283
+z // c284
+,
+    // c285
+repeat i32 // c287a
+  // c287b
+zs
+    // c288
+,
+    // c289
+}
+    // c290
+, // c291a
+  // c291b
+} , // c293a
+  // c293b
+repeat // c294a
+  // c294b
+u8 // c295a
+  // c295b
+ru8 // c296
+, // c297
+repeat // c298a
+  // c298b
+u16 ru16 // c300a
+  // c300b
+, repeat // c302a
+  // c302b
+u32 // c303
+ru32 // c304a
+  // c304b
+, // c305
+repeat // c306
+u64 ru64 , repeat
+    // c310
+i8 // c311
+ri8 // c312a
+  // c312b
+,
+    // c313
+repeat i16
+    // c315
+ri16 // c316
+,
+    // c317
+repeat i32 ri32
+    // c320
+,
+    // c321
+repeat i64 ri64 , // c325
+repeat // c326
+f32 // c327a
+  // c327b
+rf32 // c328
+, // c329a
+  // c329b
+repeat
+    // c330
+f64 rf64 // c332
+, // c333
+repeat
+    // c334
+string
+    // c335
+rstr // c336
+, // c337
+repeat
+    // c338
+char[] rstr2 // c340a
+  // c340b
+, repeat char[ // c343a
+  // c343b
+3 // c344
+] // c345
+rfs , repeat // c348
+zchar[
+    // c349
+3 // c350a
+  // c350b
+] // c351a
+  // c351b
+rfz ,
+    // c353
+repeat // c354
+Inner2 // c355a
+  // c355b
+, repeat Grp // c358
+{ u8 // c360a
+  // c360b
+k , // c362a
+  // c362b
+char[ // c363a
+  // c363b
+2 ] v // c366a
+  // c366b
+, // c367
+}
+    // c368
+, // c369
+SeqNum // c370
+, // c371
+SeqNum seq2
+    // c373
+, repeat SeqNum
+    // c376
+seqs // c377
+, Symbol // c379
+, // c380
+AltSymbol
+    // c381
+alt
+    // c382
+, // c383a
+  // c383b
+ZSym , Note // c386
+,
+    // c387
+repeat // c388
+Symbol // c389
+syms , Price px
+    // c393
+, // c394a
+  // c394b
+u16 MsgType // c396a
+  // c396b
+, // c397
+u32 BodyLen // c399
+@lengthOf( // c400a
+  // c400b
+Body ) // c402a
+  // c402b
+,
+    // c403
+match // c404a
+  // c404b
+MsgType // c405
+as // c406a
+  // c406b
+Body {
+    // c408
+1
+    // c409
+: // c410
+Logon // c411
+, // c412
+[ // c413a
+  // c413b
+2 // c414a
+  // c414b
+,
+    // c415
+3 ]
+    // c417
+: // c418a
+  // c418b
+Logout // c419a
+  // c419b
+, // c420
+7
+    // c421
+: // c422a
+  // c422b
+Logon , 9
+    // c425
+: Empty // c427a
+  // c427b
+, // c428a
+  // c428b
+} , // c430a
+  // c430b
+u32 // c431a
+  // c431b
+Checksum // c432
+@calculatedFrom(
+    // c433
+""CRC32"" // c434a
+  // c434b
+)
+    // c435
+,
+    // c436
+} ")).
+Eval vm_compute in ("<<<M3571>>>" ++ check (runes_of_ascii "// top
+options
+    // c0
+{
+    // c1
+StringPrefixLenType // c2
+= // c3a
+  // c3b
+u64 // c4a
+  // c4b
+; // c5
+ArrayPrefixLenType // c6a
+  // c6b
+=
+    // c7
+u8
+    // c8
+;
+    // c9
+FixedStringPadFromLeft =
+    // c11
+true
+    // c12
+; FixedStringPadChar
+    // c14
+=
+    // c15
+'0' // c16a
+  // c16b
+; // c17a
+  // c17b
+}
+    // c18
+packet
+    // c19
+Ack
+    // c20
+{ // c21a
+  // c21b
+@rightPad // c22
+( // c23
+'0'
+    // c24
+) // c25a
+  // c25b
+char[ // c26
+7 ] // c28
+Px // c29
+,
+    // c30
+u64 msgKind // c32
+, // c33
+i8 // c34
+x
+    // c35
+, // c36a
+  // c36b
+} // c37a
+  // c37b
+packet
+    // c38
+Party // c39a
+  // c39b
+{ i8 // c41a
+  // c41b
+sym // c42a
+  // c42b
+, // c43
+repeat
+    // c44
+Ack
+    // c45
+, repeat // c47a
+  // c47b
+InPx10
+    // c48
+{ // c49a
+  // c49b
+repeat // c50
+Ack
+    // c51
+, // c52
+zchar[
+    // c53
+1 ] // c55
+Ref
+    // c56
+, // c57a
+  // c57b
+uint64
+    // c58
+Qty ,
+    // c60
+u16 // c61
+tag7
+    // c62
+,
+    // c63
+} // c64
+, // c65a
+  // c65b
+int8
+    // c66
+clOrdID // c67a
+  // c67b
+,
+    // c68
+}
+    // c69
+packet // c70
+Fill
+    // c71
+{ } // c73a
+  // c73b
+packet // c74a
+  // c74b
+Order // c75
+{ // c76a
+  // c76b
+}
+    // c77
+root
+    // c78
+packet Quote { // c81a
+  // c81b
+Order , // c83a
+  // c83b
+@leftPad // c84
+(
+    // c85
+'0' // c86a
+  // c86b
+) // c87a
+  // c87b
+char[
+    // c88
+1 ]
+    // c90
+Side2 ,
+    // c92
+string
+    // c93
+venue , // c95a
+  // c95b
+char[ // c96
+7 // c97a
+  // c97b
+]
+    // c98
+lastPx
+    // c99
+, u16 tag7
+    // c102
+,
+    // c103
+u32 // c104a
+  // c104b
+clOrdID ,
+    // c106
+match // c107a
+  // c107b
+clOrdID // c108a
+  // c108b
+as // c109
+Body {
+    // c111
+30 : // c113
+Order
+    // c114
+, // c115a
+  // c115b
+196
+    // c116
+: Party // c118
+, // c119
+10 // c120
+: Fill // c122
+,
+    // c123
+28 : Ack // c126a
+  // c126b
+, } // c128
+, u32
+    // c130
+sym // c131
+@calculatedFrom( // c132a
+  // c132b
+""CRC32""
+    // c133
+)
+    // c134
+,
+    // c135
+} // c136a
+  // c136b
+")).
+Eval vm_compute in ("<<<M253>>>" ++ check (runes_of_ascii "packet Foo{ calculatedFrom @calculatedFrom(// c
+""\n""
+    ) `// not a comment` ,
+repeat
+char[] uint8x`" ++ [28040; 24687; 31867; 22411]%N ++ runes_of_ascii "` , options1//x
+@calculatedFrom( // 50% %s
+""it's"" ) ,
+int64
+a1	, @tag( 00 ) match lengthOf as int {""a\""b"" : msg_type
+, } , @lengthOf( // trailing space 
+stringy) metadata @calculatedFrom( """ ++ [233]%N ++ runes_of_ascii "t" ++ [233]%N ++ runes_of_ascii """), repeat zchar
+{ char[
+    255 ]
+    //x
+    u8x ,repeat
+    zchar ,	match f32a
+    // @lengthOf(
+    as
+pack{
+    ""// no comment""://x
+a1 , } , }
+, } // @lengthOf(
+root packet Packet
+{ } packet float {  @calculatedFrom(
+    """ ++ [233]%N ++ runes_of_ascii "t" ++ [233]%N ++ runes_of_ascii """
+    )	x_y_z ,	char[	3 ] x_y_z
+@calculatedFrom(
+""a\\""
+) `" ++ [28040; 24687; 31867; 22411]%N ++ runes_of_ascii "`,
+@tag(	10 )u16 Header@lengthOf(zchar )
+`crlf
+line` , @lengthOf( charz ) repeat trueish {
+metadata @lengthOf( falsey) , repeat
+// " ++ [27880; 37322]%N ++ runes_of_ascii "
+//	t
+char[]
+uint8x `tab	here`, int64 rootA
+`" ++ [233]%N ++ runes_of_ascii "` , repeat crc {	match i8i8 as T { [
+    ""// no comment"" , ""CRC32"",
+""" ++ [28040; 24687]%N ++ runes_of_ascii """]	: zchar
+    // trailing space 
+    ,[
+4294967296// `tick` ""quote"" 'q'
+]:BodyLength ,  ""\n""
+:
+    _x
+,4294967296 :  BodyLength ,},
+    body `" ++ [233]%N ++ runes_of_ascii "`,
+repeat metadata zchar ,  repeat f32 crc`// not a comment` , } ,
     }
-    packet A{
+// a // b
+// packet A { u8 x, }
+, // 50% %s
+@leftPad (
+    ) char[]	Pad `" ++ [28040; 24687; 31867; 22411]%N ++ runes_of_ascii "` ,repeat
+calculatedFrom
+    BodyLength , match
+_x
+as int {
+    ""{,}"" :
+trueish
+    ,  42:
+x_y_z
+    [ 7 ]
+:
+    tag,
+    } , @leftPad (//	t
+) u8x /// triple
+{repeat
+char[ 42]
+/// triple
+// 50% %s
+matchKey  , char[ 65535// packet A { u8 x, }
+]	len
+@lengthOf( roots) , crc ,	char[
+// trailing space 
+// a // b
+0123456789]len @lengthOf( leftPad
+)
+// c
+//	t
+,	} ,
+    //
+    repeat int64
+calculatedFrom`" ++ [28040; 24687; 31867; 22411]%N ++ runes_of_ascii "` ,repeat repeatCount
+rootA , } packet a1 { /// triple
 }
+")).
+Eval vm_compute in ("<<<M201>>>" ++ check (runes_of_ascii "root	packet string_
+    //	t
+    {
+match roots	as matchKey { ""a\\"" : pack , """":falsey
+,
+007	:u8x ,
+[ ""a\""b"" ,
+    ""x y""	,
+3 ,//	t
+0 , 255 ,
+007	,
+3, 7 ] : x_y_z , } ,
+@lengthOf(
+// packet A { u8 x, }
+//x
+string_) repeat uint16 body`crlf
+line` , match rootA as /// triple
+Logon
+{
+    """ ++ [128512]%N ++ runes_of_ascii """ :	MetaDataX
+,}
+,
+// packet A { u8 x, }
+// 50% %s
+@rightPad
+    (	'\x00' )// trailing space 
+u
+{ match roots as falsey
+// c
+// " ++ [27880; 37322]%N ++ runes_of_ascii "
+{
+""\n"" : MetaDataX// " ++ [128512]%N ++ runes_of_ascii " emoji
+, """ ++ [233]%N ++ runes_of_ascii "t" ++ [233]%N ++ runes_of_ascii """ :u128 ,
+// @lengthOf(
+// `tick` ""quote"" 'q'
+[
+""" ++ [28040; 24687]%N ++ runes_of_ascii """	] :
+leftPad, [ ""{,}""  ]
+    : float
+    , [255 ,""// no comment""
+    // trailing space 
+    , ""\n"" ,
+7 , 65535
+, 3
+] : len ,} , }
+,	char[// trailing space 
+00 ] i8i8
+    `tab	here`, @tag( 007 ) @calculatedFrom( ""CRC32""
     // " ++ [128512]%N ++ runes_of_ascii " emoji
-    packet calculatedFrom {}")).
-Eval vm_compute in ("<<<M1452>>>" ++ check (runes_of_ascii "options {
-    StringPrefixLenType = u32;
-    ArrayPrefixLenType = u8;
-    FixedStringPadFromLeft = false;
+    )repeat
+uint64
+    A
+`// not a comment` , @leftPad ( '\x00')string stringy`line1
+line2`
+    , @rightPad (
+    '\x00' )
+    @tag( // c
+255
+// c
+// c
+)
+body
+    @lengthOf(Z9_ )// a // b
+, match
+x_y_z as falsey { ""\" ++ [233]%N ++ runes_of_ascii """ : options1
+,  } , } root packet charz {
+char[]// c
+body `// not a comment` ,	@rightPad
+    ( ) a1
+{ Pad	@lengthOf(
+    falsey
+    ) `say ""hi""` , }
+,
+    match zchar as Z9_
+    { 0 :u128  ,
+} ,match
+    f32a  as u128
+    //
+    { ""1"" :Pad, ""packet""
+:len
+// c
+/// triple
+,
+    ""{,}"" : charz
+,
+[1
+,
+    00 ,//x
+""CRC32""
+    ,
+""x y"", 42 , ""a\\""
+, ""packet""
+    , 00 ] :
+len [ ""1""]
+:	crc,
+    42 :
+Logon ,}
+, } packet stringy {
+char[ 7
+    ]
+    trueish , }")).
+Eval vm_compute in ("<<<M4524>>>" ++ check (runes_of_ascii "packet u8x {
+    float64 tag,
+    repeat string As `it's`,
+    @calculatedFrom(""" ++ [128512]%N ++ runes_of_ascii """)
+    rootA,
+    uint32 roots `" ++ [28040; 24687; 31867; 22411]%N ++ runes_of_ascii "`,
+    x_y_z @lengthOf(stringy),
+    @calculatedFrom(""" ++ [128512]%N ++ runes_of_ascii """)
+    repeat u32 int `tab	here`,
+    x @calculatedFrom(""" ++ [233]%N ++ runes_of_ascii "t" ++ [233]%N ++ runes_of_ascii """) `line1
+        line2`,
 }
-packet Logon {
-    i8 venue,
-    int16 f1,
-    zchar[8] Acct,
-    repeat InNote16 {
-        InQty73 {
-            float32 tag7,
-        },
-        f32 Acct,
-        zchar[5] sym,
+
+options {
+    // c
+    Pad = '\x00'
+    float = 0123456789
+    // trailing space 
+    // 50% %s
+    body = uint64;
+    i8i8 = ""a\""b"";
+    x_y_z = ""packet"";// " ++ [128512]%N ++ runes_of_ascii " emoji
+}
+
+root packet trueish {
+    repeat uint16 x `100% of %d`,
+    uint32 BodyLength,// @lengthOf(
+    @calculatedFrom(""" ++ [233]%N ++ runes_of_ascii "t" ++ [233]%N ++ runes_of_ascii """)
+    @rightPad('\x00')
+    @tag(255)
+    chars `
+        `,
+    char[3] packetx @lengthOf(matchKey),
+    repeat zchar[1] u128 `two words`,
+    int64 pack,
+    string As `line1
+        line2`,
+    @rightPad('\x00')
+    @rightPad('0')
+    @tag(10)
+    match o as Logon {
+        00 : T,
+        [""a	b""] : Packet,
+        [
+            """ ++ [28040; 24687]%N ++ runes_of_ascii """, ""a\""b"", ""packet"", 4294967296, 10,
+            4294967296, 0, 007
+        ] : trueish,
+        ""\" ++ [233]%N ++ runes_of_ascii """ : crc,
+        ""// no comment"" : rootA,
+        42 : msg_type,
+    },// " ++ [128512]%N ++ runes_of_ascii " emoji
+    match u128 as u {
+        255 : BodyLength,
     },
-    uint16 Side2,
-    i32 lastPx,
+    match Pad as trueish {
+        4294967296 : matchKey,
+        [""it's"", 10, 65535, ""1""] : len,
+        7 : len,
+        ""a	b"" : roots,
+    },
+}")).
+Eval vm_compute in ("<<<M1173>>>" ++ check (runes_of_ascii "
+options{  i64_ = '0' }//x
+packet
+Z9_
+    { charz @lengthOf(a1 ) ,
+}packet
+/// triple
+//	t
+repeatCount {
+body ``
+    ,
+roots @calculatedFrom( ""a\\"") ,
+i32// 50% %s
+falsey // " ++ [128512]%N ++ runes_of_ascii " emoji
+,@calculatedFrom( ""1"") @calculatedFrom(
+    ""\" ++ [233]%N ++ runes_of_ascii """)
+@calculatedFrom(	""a\\"" )  roots asx`doc`  , chars
+@lengthOf( repeatCount ) `doc`
+    , i64
+    x_y_z ,
+    // " ++ [128512]%N ++ runes_of_ascii " emoji
+    @calculatedFrom( ""\n""	)zchar[ 42 ] calculatedFrom
+`crlf
+line` , @rightPad
+( ' ' ) //	t
+body
+    i8i8	, //	t
+}packet
+// c
+//	t
+matchKey {
+@calculatedFrom(""" ++ [128512]%N ++ runes_of_ascii """
+)
+uint8 // `tick` ""quote"" 'q'
+int
+`
+`,
+    match MetaDataX as o {[ // packet A { u8 x, }
+00  ]: Pad	, [ 0123456789
+    ] : uint8x
+, [ ""\n""
+    ] : Z9_	}
+// c
+//x
+,  @tag( 42
+)match calculatedFrom as falsey
+{ 3 :
+a1
+, 00 : o}
+    ,@lengthOf(i8i8
+    )matchKey@lengthOf(
+calculatedFrom )
+    , @lengthOf(
+string_ ) @calculatedFrom(
+    //
+    ""packet"" )@leftPad ( //
+) repeat
+    Pad calculatedFrom , x_y_z , @tag( 007 ) repeat u32//	t
+x
+,@tag( //x
+4294967296) @leftPad
+(
+    '\x00' )zchar[ 42
+]
+    o ,@lengthOf(
+repeatCount) // trailing space 
+@lengthOf(rootA)
+    // " ++ [128512]%N ++ runes_of_ascii " emoji
+    repeat
+// c
+//
+char[ 65535 // packet A { u8 x, }
+]  matchKey,
+}
+")).
+Eval vm_compute in ("<<<M353>>>" ++ check (runes_of_ascii "options
+{	x_y_z =
+    i32 ; }// " ++ [27880; 37322]%N ++ runes_of_ascii "
+packet // @lengthOf(
+_x{ @lengthOf( // packet A { u8 x, }
+rootA )
+match int as
+    int { [
+    7 , 007, ""abc"" ]//x
+:rootA
+,
+""" ++ [28040; 24687]%N ++ runes_of_ascii """ : u8x ,
+    // @lengthOf(
+    [
+    ""`tick`"", ""CRC32"" , """ ++ [128512]%N ++ runes_of_ascii """] : Z9_	, 10 : charz
+    [
+    1 /// triple
+,""" ++ [128512]%N ++ runes_of_ascii """ ] : calculatedFrom ,
+}
+,
+@calculatedFrom( // `tick` ""quote"" 'q'
+""" ++ [28040; 24687]%N ++ runes_of_ascii """ ) options1 { repeat packetx , roots @lengthOf(
+roots ) , int8 f32a , } , repeat zchar[ 10
+// a // b
+/// triple
+]
+    u8x
+,  @lengthOf(
+    body
+) @lengthOf(
+    matchKey ) tag	trueish	`two words`
+    ,uint8x // `tick` ""quote"" 'q'
+{trueish {
+repeat  int8
+u`doc`
+, } ,	char[]A //
+, string metadata // trailing space 
+@lengthOf(len)	`{ , }`  ,u8 x , // " ++ [128512]%N ++ runes_of_ascii " emoji
+} ,char[ 255 ] i8i8 @calculatedFrom( ""`tick`""	) `a\`, @lengthOf( Packet//	t
+)//x
+char[]
+/// triple
+/// triple
+Header ,
+@tag( 65535 // " ++ [27880; 37322]%N ++ runes_of_ascii "
+) i8i8	trueish , } root packet repeatCount{//	t
+@calculatedFrom( """" // trailing space 
+)@lengthOf( options1
+    )
+@lengthOf(
+// @lengthOf(
+// packet A { u8 x, }
+Header ) char[4294967296
+] len
+    , repeat
+    f64 options1 ,
+    // " ++ [128512]%N ++ runes_of_ascii " emoji
+    } // 50% %s")).
+Eval vm_compute in ("<<<M1033>>>" ++ check (runes_of_ascii "MetaData x_y_z
+{
+i16 Pad `line1
+line2`,} packet  calculatedFrom {
+    f64
+options1@calculatedFrom( ""a\""b"") `it's`
+// trailing space 
+//
+,
+    @leftPad
+() @lengthOf( roots
+    //	t
+    ) x { // 50% %s
+repeat Header `it's` , char[ 0 ] calculatedFrom @lengthOf( zchar ),// " ++ [128512]%N ++ runes_of_ascii " emoji
+repeat
+    i8 f32a
+    // 50% %s
+    , } ,char[ 10  ]int
+,
+    @leftPad	( )
+int16
+    Foo @lengthOf( Z9_ )
+    , @calculatedFrom( ""x y"" )float64 i8i8, u8x
+@calculatedFrom(
+// c
+//	t
+""packet"" ) ,@calculatedFrom(
+""\n"" ) char[ 65535 // @lengthOf(
+]// a // b
+stringy , zchar[	3
+    ] MetaDataX , repeat uint64 float ,	} // trailing space 
+packet tag  { u
+    @calculatedFrom( ""1"" ) `it's` ,// c
+zchar[
+    0 // @lengthOf(
+]
+    // " ++ [27880; 37322]%N ++ runes_of_ascii "
+    i64_ @lengthOf( i64_//x
+)  ,uint8  repeatCount	,	@lengthOf(
+leftPad )
+    string int
+@lengthOf( As )	,@tag(65535 )  string i64_
+, } packet
+// 50% %s
+// 50% %s
+lengthOf {@rightPad (
+'\x00'
+) o
+    { // 50% %s
+int @calculatedFrom( ""a	b"" ) `doc` ,}
+    , }root
+packet Logon {  @tag(
+3 )Z9_ , } // `tick` ""quote"" 'q'")).
+Eval vm_compute in ("<<<M3569>>>" ++ check (runes_of_ascii "options {
+    LittleEndian = false;
+    StringPrefixLenType = u16;
+    ArrayPrefixLenType = u16;
+    FixedStringPadFromLeft = false;
+    FixedStringPadChar = ' ';
+}
+packet Heartbeat {
+    i32 f1,
+}
+packet Cancel {
+    char[] Note,
 }
 packet Fill {
-    repeat InOrderid15 {
-        zchar[8] sym,
-        repeat char[2] OrderId,
-        repeat Logon,
-        InQty82 {
-            char[] Tail,
-            repeat Logon,
-            float64 price,
-            f64 Side2,
-        },
-        char[12] venue,
-        char[4] Px,
-    },
-    @rightPad('0') char[2] venue,
-    InPrice99 {
-        InAcct72 {
-            u8 pad0,
-        },
-        u32 OrderId,
-        Logon,
-    },
+    u32 price,
+    float64 Ref,
+    zchar[8] tag7,
+    repeat Cancel,
+    int64 Acct,
 }
-root packet Reject {
-    zchar[9] msgKind,
-    u32 venue,
-    u16 seqNo @lengthOf(Body),
-    match venue as Body {
-        57 : Fill,
-        8 : Logon,
+packet Quote {
+    @rightPad('0') char[12] count,
+    char[] seqNo,
+}
+root packet Party {
+    Fill,
+    InMsgkind30 {
+        repeat u16 Ref,
+        repeat InCount61 {
+            repeat i8 sym,
+            char[] Ref,
+            repeat char[4] Qty,
+            repeat Heartbeat,
+        },
+        u32 venue,
+        uint16 Flags,
     },
-    u16 Tail @calculatedFrom(""CR\
+    u8 Px,
+    repeat u16 Side2,
+    @rightPad('0') char[10] Qty,
+    @rightPad('\x00') char[1] clOrdID,
+    u8 Tail,
+    match Tail as Body {
+        [159, 182] : Quote,
+        155 : Heartbeat,
+        178 : Fill,
+        49 : Cancel,
+    },
+    u16 Ref @calculatedFrom(""CR\
 C32""),
 }
 ")).
-Eval vm_compute in ("<<<M1662>>>" ++ check (runes_of_ascii "
-
-  packet 
-	    // `tick` ""quote"" 'q'
+Eval vm_compute in ("<<<M266>>>" ++ check (runes_of_ascii "packet matchKey {/// triple
+Pad@lengthOf(  Pad) `a\` , }	packet pack
+    {
+zchar[ 65535 ] zchar , match	u8x
+as pack
+    { [""a\""b"" /// triple
+, 7 ] :packetx} ,zchar[
+7 ]u128@lengthOf( string_
+) `two words` , }
+packet
+Packet{ match body as //x
+stringy {""" ++ [128512]%N ++ runes_of_ascii """:
+stringy }, repeat calculatedFrom,  @calculatedFrom( ""{,}"" )
+@lengthOf(pack ) @rightPad
+/// triple
 // `tick` ""quote"" 'q'
-		rootA{  @tag(
-3
-
-) 
-zchar[00 ]  // trailing space 
-  x_y_z  `" ++ [28040; 24687; 31867; 22411]%N ++ runes_of_ascii "`
-
-, _x,
-
+(
+'\x00') repeat BodyLength	`crlf
+line` , @leftPad ( '0'	)
+@calculatedFrom(
+""it's"" )
+@lengthOf(
+    falsey
+)chars
+    // @lengthOf(
+    MetaDataX
+`u8 x,` , int8 Packet `` , @leftPad  ( )int16 falsey , repeat u16 As, } root  packet calculatedFrom { @lengthOf( int
+)char[
+00
+    ]  Foo ,
+    // " ++ [27880; 37322]%N ++ runes_of_ascii "
+    repeat uint64 string_
+    // " ++ [27880; 37322]%N ++ runes_of_ascii "
+    `two words` ,
+    string a1 @calculatedFrom( // " ++ [27880; 37322]%N ++ runes_of_ascii "
+""a\\"" ) `100% of %d` ,repeat char[
+    0123456789
+]Foo `" ++ [28040; 24687; 31867; 22411]%N ++ runes_of_ascii "`
+,  } packet i64_
+{ @leftPad(
+// @lengthOf(
 // a // b
-		float64 A
-@lengthOf( 	 //
-    	u8x
+'\x00' )int8 options1 ,}
+")).
+Eval vm_compute in ("<<<M341>>>" ++ check (runes_of_ascii "packet lengthOf
+{ } options{
+    body = 1 ;
+    } packet u8x {
+    // " ++ [128512]%N ++ runes_of_ascii " emoji
+    Z9_ zchar	, float32 u8x ,
+repeat As  {
+match lengthOf as
+// trailing space 
+//
+As{""`tick`""
+:BodyLength //
+,
+    } , match packetx as charz
+    {4294967296 : f32a [ 7 , ""it's"" ] : x_y_z, //x
+1  :msg_type , ""CRC32"" :
+T ,
+//x
+/// triple
+}  ,zchar , asx{ Header leftPad
+, }	,
+    }
+    ,  @tag( 1 ) i16 Z9_`say ""hi""`, string Logon
+    @lengthOf( Foo ) ,repeat	uint32 leftPad `100% of %d` // c
+, uint8
+falsey	, }packet
+Header
+{ @calculatedFrom(""""
+    )
+@calculatedFrom(""" ++ [128512]%N ++ runes_of_ascii """
+) @calculatedFrom( ""it's"" )
+tag {int32 // 50% %s
+repeatCount
+    ,  f32a @lengthOf(	BodyLength ) , // `tick` ""quote"" 'q'
+calculatedFrom// @lengthOf(
+{
+i64_ len , trueish @lengthOf( body ) `" ++ [28040; 24687; 31867; 22411]%N ++ runes_of_ascii "` ,  repeat	Z9_ `tab	here`
+, repeat i8i8 {options1 A, // a // b
+}
+,
+} , } ,
+repeat zchar[ 10
+]
+trueish
+    `two words`,}
+")).
+Eval vm_compute in ("<<<M3737>>>" ++ check (runes_of_ascii "options {
+    metadata = false
+    trueish = char[];
+    u8x = false;
+}
 
-),
-	u8  rootA
+packet MetaDataX {
+    f64 _x @lengthOf(T),
+    Z9_ {
+        x @calculatedFrom(""x y""),
+    },
+    u8 i8i8 @lengthOf(Z9_) `two words`,
+    @tag(007)
+    string Z9_ @calculatedFrom(""{,}"") `two words`,
+    // 50% %s
+    // `tick` ""quote"" 'q'
+    @leftPad('\x00')
+    @lengthOf(falsey)
+    @lengthOf(Pad)
+    // `tick` ""quote"" 'q'
+    zchar[00] msg_type @lengthOf(asx) `say ""hi""`,
+    match string_ as u {
+        42 : pack,
+        ""it's"" : trueish,
+        7 : rootA,
+        """" : falsey,
+    },
+    repeat u8 a1,
+    len `line1
+        line2`,
+    int32 Z9_ @lengthOf(int),
+    repeat charz {
+        match chars as T {
+            ""// no comment"" : float,
+            42 : string_,
+        },
+    },
+}
 
+MetaData msg_type {
+    // @lengthOf(
+    x trueish,
+}")).
+Eval vm_compute in ("<<<M3745>>>" ++ check (runes_of_ascii "packet
+
+options1 {
+}	// c
+
+options{ x_y_z	=	char[
+
+3
+	] ; string_=
+
+    ""x y""
+
+    packetx =
+	""" ++ [233]%N ++ runes_of_ascii "t" ++ [233]%N ++ runes_of_ascii """
+; } packet len
+{// " ++ [128512]%N ++ runes_of_ascii " emoji
+  	repeat zchar[
+    00
+	]
+	matchKey
+	`u8 x,` ,
+
+uint64
+	i8i8 ,	rootA  {
+    match
+	repeatCount
+    as	rootA{ [
+0123456789
+    ,
+	7 
+
+    // 50% %s
+
+  ]
+    :
+    u8x ,
+    } ,
+
+} 
+
+//
+// `tick` ""quote"" 'q'
+    ,  @calculatedFrom( """ ++ [28040; 24687]%N ++ runes_of_ascii """	)
+	@calculatedFrom(
+
+    ""abc"")
+char[ //
+  	10
+]string_@calculatedFrom(
+
+""\" ++ [233]%N ++ runes_of_ascii """ ) `doc`
+,	@rightPad 
+(	'0'
+    )
+	string	chars	@lengthOf(
+
+matchKey
+
+)	,repeat	//	t
+	u8
+	x_y_z
 `line1
 line2`
-
-, 
-zchar[
-	7	]// c
-
-stringy  , match
-
-Header as f32a
-{
-
-""\" ++ [233]%N ++ runes_of_ascii """
-	:o ,
-
-[
-	    // `tick` ""quote"" 'q'
-  	4294967296  ,
-7  ,  // c
-  4294967296 ,
-    ""packet""	,	""a	b""
-
-    ,
-    ""CRC32""
-
-    ,  7
-,	""a	b""// trailing space 
-
-]: // packet A { u8 x, }
-		repeatCount
-
-    , 
-""a\""b"":Header 
-[  ""a\""b""
-	]
-
-    :crc ,
-
-[
-
-007
-	, 007  , ""abc""]
-
-    : metadata  ,
-
-4294967296
-:
-chars
-
-    ,
-
-} // " ++ [128512]%N ++ runes_of_ascii " emoji
-,	@tag(
-	1
-
-    )
-
-i8 
-matchKey	`a\` ,
-        // @lengthOf(
-// " ++ [128512]%N ++ runes_of_ascii " emoji
-@lengthOf( body
-) tag
-	,  @lengthOf(matchKey
-	)
-	@lengthOf(  o  ) @lengthOf(	pack
-)
-
-repeat
-u{	calculatedFrom @lengthOf( falsey
-), },
-
-}")).
-Eval vm_compute in ("<<<M1761>>>" ++ check (runes_of_ascii "
-
-  packet	options1 {
-	@leftPad(
-
-)
-@calculatedFrom( ""\n"" ) @leftPad
-	(
-' ' // " ++ [27880; 37322]%N ++ runes_of_ascii "
-    ) chars
-
-    T`say ""hi""`// " ++ [27880; 37322]%N ++ runes_of_ascii "
-
-	, 
-  // @lengthOf(
-	repeat 
-zchar
-
-{ 
-metadata  { 
-    // @lengthOf(
-
-  // c
-match
-    A
-
-as  x_y_z
-
-{
-""1"" :
-    // " ++ [128512]%N ++ runes_of_ascii " emoji
-  // c
-  string_ 	 // @lengthOf(
-[""// no comment""
-    ,
-10
-	]
-:Foo
-
-    ""a\\"" :
-Packet[  ""a	b""  ,	65535 
-]:x,
-}
-
-,	}
-    ,
-
-    } 	 // " ++ [128512]%N ++ runes_of_ascii " emoji
-, @rightPad(
-    ) f32
-	msg_type 
 ,
 
-    match
-f32a as
-    body{ [
-""`tick`"" 
-,""\n""
-	,""a	b"" ,	""{,}"" 
-,255 ,	""x y""
+    } packet	crc
+{@lengthOf(
+	tag 
+      //
+/// triple
+	  )  match
+    Header  as float  {[  0,
+    ""it's""
 
-    ,
-3
-]
+    ,1 
+,
 
-:  // @lengthOf(
+""" ++ [28040; 24687]%N ++ runes_of_ascii """  ,
 
-x ,	""CRC32""	:
+""a	b"",
+    3
+
+] :  lengthOf,	0123456789
+	:Z9_ ,}, @calculatedFrom(
+    ""1""
+
+) i64_
+u128`
+` 
+, } ")).
+Eval vm_compute in ("<<<M677>>>" ++ check (runes_of_ascii "packet// 50% %s
+int
+{
+    // " ++ [27880; 37322]%N ++ runes_of_ascii "
+    u16 trueish// `tick` ""quote"" 'q'
+,
+zchar[
+1 ]
     zchar
-
-    ,	""x y"" : rootA 	 // `tick` ""quote"" 'q'
-    	[ 00
-	,
-    ""it's"",
-4294967296
+@lengthOf( chars ) , repeat zchar[ 10
+// c
+// " ++ [128512]%N ++ runes_of_ascii " emoji
+] msg_type	`line1
+line2`
+, @calculatedFrom( ""a\\"") @rightPad // trailing space 
+( //	t
+' '
+    ) string Z9_  `it's`
+// a // b
+// 50% %s
+,
+repeat // packet A { u8 x, }
+rootA { // c
+zchar[ 00
+]MetaDataX, }, @calculatedFrom( """ ++ [233]%N ++ runes_of_ascii "t" ++ [233]%N ++ runes_of_ascii """ )match
+string_// trailing space 
+as leftPad{
+""a	b"":Z9_
+,[ ""`tick`"" ,
+65535 ]// " ++ [27880; 37322]%N ++ runes_of_ascii "
+: a1 } ,@tag( 007 )
+// " ++ [128512]%N ++ runes_of_ascii " emoji
+// @lengthOf(
+u16 metadata
+    //
     ,
-
-    ""CRC32""
-    ]	:
-    roots 4294967296 : Logon
-
+    @lengthOf(
+body
+)
+    char[
+7 ] Pad`// not a comment`,@calculatedFrom(
+    ""a\\"")
+    pack _x  ,  lengthOf T , }
+packet BodyLength
+{
+int32 A
+,
+}
+    packet o{ float64 roots,
+uint8x @lengthOf(
+Logon) `two words` , }
+")).
+Eval vm_compute in ("<<<M4223>>>" ++ check (runes_of_ascii "packet x {
+    zchar[10] metadata @lengthOf(tag),
+    @rightPad('0')
+    repeat len {
+        repeat char[] T,
+        int32 asx @lengthOf(msg_type),
+        Logon `" ++ [233]%N ++ runes_of_ascii "`,
+        falsey trueish `it's`,
     },
-	@leftPad (
+    repeat int16 a1 `say ""hi""`,
+}
+
+root packet As {
+    @tag(10)
+    @calculatedFrom(""CRC32"")
+    @lengthOf(repeatCount)
+    zchar[42] f32a @lengthOf(tag) `doc`,
+    match x as u8x {
+        """ ++ [128512]%N ++ runes_of_ascii """ : stringy,
+        """ ++ [128512]%N ++ runes_of_ascii """ : rootA,
+        [""packet"", 0] : i8i8,
+        [""`tick`"", 255, ""\n"", 3, ""\n""] : u128,
+        [
+            00, ""1"", 10, ""`tick`"", 7,
+            ""CRC32"", 0
+        ] : Foo,
+        ""// no comment"" : o,
+    },
+}
+
+root packet T {
+    @tag(65535)
+    char[42] u128 @calculatedFrom(""`tick`""),
+}")).
+Eval vm_compute in ("<<<M4512>>>" ++ check (runes_of_ascii "packet MetaDataX {
+    @lengthOf(pack)
+    crc tag `it's`,// trailing space 
+    match A as calculatedFrom {
+        ""a\\"" : o,
+        [""packet"", ""a\\"", """ ++ [128512]%N ++ runes_of_ascii """, ""\n""] : string_,
+    },
+    i32 MetaDataX @calculatedFrom(""a	b""),
+    @calculatedFrom(""a	b"")
+    @calculatedFrom(""" ++ [233]%N ++ runes_of_ascii "t" ++ [233]%N ++ runes_of_ascii """)
+    zchar[65535] x_y_z,
+    u8 zchar @lengthOf(crc),
+    repeatCount @calculatedFrom(""it's""),
+    zchar[7] Z9_ @lengthOf(stringy) `// not a comment`,
+    pack {
+        asx i8i8,/// triple
+        repeat x {
+            repeat MetaDataX Logon,
+            zchar[10] Z9_ @calculatedFrom(""\n"") `say ""hi""`,
+        },
+    },
+    roots @lengthOf(u) `say ""hi""`,
+    @rightPad(' ')
+    i8i8 @lengthOf(Logon),
+}")).
+Eval vm_compute in ("<<<M4424>>>" ++ check (runes_of_ascii "// " ++ [27880; 37322]%N ++ runes_of_ascii "
+MetaData rootA {
+    f64 As,
+    f64 int `two words`,
+    f32 body `say ""hi""`,
+    zchar[4294967296] x,// a // b
+    uint32 lengthOf `
+        `,
+}
+
+root packet pack {
+    match pack as repeatCount {
+        ""CRC32"" : crc,
+        1 : calculatedFrom,
+        [""packet"", ""{,}"", 10, ""a\\""] : float,
+        //	t
+        ""packet"" : _x,
+        10 : o,
+    },
+    match a1 as T {
+        65535 : Z9_,
+        0 : _x,
+    },
+    u64 Pad `" ++ [233]%N ++ runes_of_ascii "`,
+    @calculatedFrom(""packet"")
+    MetaDataX pack,
+    char[007] uint8x,
+    i8i8 @lengthOf(msg_type) `u8 x,`,
+    @rightPad('\x00')
+    string_ `" ++ [233]%N ++ runes_of_ascii "`,
+}
+
+root packet a1 {
+}
+
+MetaData x_y_z {
+    i16 roots `say ""hi""`,
+}")).
+Eval vm_compute in ("<<<M1384>>>" ++ check (runes_of_ascii "root
+packet
+    repeatCount  { }
+options { metadata = 65535
+; falsey
+= false; i8i8 =
+'\x00'  ; // 50% %s
+As=	true }
+    //	t
+    root packet int
+    {	int8 len
+    , // a // b
+@tag( 3 ) body`it's` , repeat
+repeatCount f32a, int8// " ++ [128512]%N ++ runes_of_ascii " emoji
+u128 @lengthOf( stringy
+)//	t
+`{ , }` ,@calculatedFrom(""" ++ [233]%N ++ runes_of_ascii "t" ++ [233]%N ++ runes_of_ascii """ ) @lengthOf(
+    f32a // " ++ [128512]%N ++ runes_of_ascii " emoji
+)	@calculatedFrom(""abc"" ) match roots
+// " ++ [27880; 37322]%N ++ runes_of_ascii "
+// trailing space 
+as
+    int
+{ """ ++ [233]%N ++ runes_of_ascii "t" ++ [233]%N ++ runes_of_ascii """
+    : A
+    ,	}
+    , @leftPad
+    //
+    ( )char[
+    // a // b
+    42
+]
+// c
+// @lengthOf(
+string_@calculatedFrom(
+""`tick`"" )
+, @calculatedFrom(""`tick`""
+    )repeat
+    calculatedFrom Header , } /// triple")).
+Eval vm_compute in ("<<<M243>>>" ++ check (runes_of_ascii "packet // 50% %s
+_x	{
+char[]options1 ,
+// packet A { u8 x, }
+/// triple
+}  options {
+    Foo = // " ++ [128512]%N ++ runes_of_ascii " emoji
+string  ; }
+    packet BodyLength {
+    }
+    root packet Z9_ {@lengthOf(
+repeatCount
+    // 50% %s
+    )i8i8 string_ `line1
+line2`, i8i8 ,
+    u64 // " ++ [128512]%N ++ runes_of_ascii " emoji
+u128 , @leftPad ( '0' )
+// `tick` ""quote"" 'q'
+// packet A { u8 x, }
+match Pad as T { """ ++ [128512]%N ++ runes_of_ascii """:
+Packet
+// c
+// trailing space 
+,""x y"" :tag },repeat rootA//x
+`it's`	,
+    repeat options1 {
+lengthOf	,string calculatedFrom @calculatedFrom( ""it's"" ) , metadata
+    @calculatedFrom(""" ++ [28040; 24687]%N ++ runes_of_ascii """
+) ,
+// `tick` ""quote"" 'q'
+/// triple
+} , // " ++ [128512]%N ++ runes_of_ascii " emoji
+}
+")).
+Eval vm_compute in ("<<<M3664>>>" ++ check (runes_of_ascii "packet f32a {
+    @tag(4294967296)
+    charz matchKey,
+    @calculatedFrom(""packet"")
+    repeatCount @lengthOf(len),
+    uint32 stringy `
+        `,
+    Foo @lengthOf(string_),
+    repeat char[007] Logon `// not a comment`,
+    zchar[00] len @calculatedFrom(""1""),
+    match len as falsey {
+        ""{,}"" : o,
+    },
+    match body as Z9_ {
+        7 : BodyLength,
+        255 : _x,
+        // a // b
+    },
+    @leftPad('\x00')
+    match f32a as f32a {
+        [10, 0123456789] : a1,
+    },
+    @calculatedFrom(""" ++ [28040; 24687]%N ++ runes_of_ascii """)
+    @calculatedFrom(""abc"")
+    int8 _x `say ""hi""`,
+}")).
+Eval vm_compute in ("<<<M3973>>>" ++ check (runes_of_ascii "// c
+MetaData x {
+    falsey Logon `a\`,
+    char[] a1,
+    crc A,
+}
+
+packet Pad {
+    zchar[4294967296] x_y_z ``,
+    repeat matchKey {
+        zchar[007] len,
+        BodyLength {
+            leftPad a1,
+            crc i8i8,
+            uint64 len @lengthOf(o) `line1
+                        line2`,
+        },
+        trueish,
+        lengthOf calculatedFrom,
+    },
+    @leftPad()
+    u8x @calculatedFrom(""" ++ [128512]%N ++ runes_of_ascii """) `line1
+        line2`,
+}
+
+packet asx {
+    float32 Packet,
+    @lengthOf(metadata)
+    repeat MetaDataX {
+        f64 Z9_,
+    },
+}")).
+Eval vm_compute in ("<<<M890>>>" ++ check (runes_of_ascii "root packet u
+    { }
+packet
+    len{ @rightPad	(
 '0'
 )
-
-pack
-`crlf
-line`  , }
-
-")).
-Eval vm_compute in ("<<<M1547>>>" ++ check (runes_of_ascii "//x
-root packet Z9_ {
-    @calculatedFrom(""a\\"")
-    zchar[1] a1 @lengthOf(Z9_),
-    @tag(0123456789)
-    @lengthOf(Header)
-    @tag(4294967296)
-    uint8 u128,
-    i16 msg_type,
-    tag matchKey,
-    repeat i8 options1 `tab	here`,
-    repeat f32a Z9_,
-    /// triple
+@leftPad (
+    '0' ) @lengthOf( body
     //	t
-    match tag as Foo {
-        42 : Logon,
-        [4294967296] : Pad,
-        3 : a1,
-        [007, 1] : a1,
-    },// packet A { u8 x, }
-    repeat zchar {
-        repeat u8 options1,
-        leftPad {
-            msg_type,
-        },
-        leftPad @lengthOf(string_) `a\`,
-    },
-    zchar charz,
-    string tag @calculatedFrom(""{,}""),// " ++ [27880; 37322]%N ++ runes_of_ascii "
-}
-
-packet u128 {
-    @tag(4294967296)
-    @tag(42)
-    f32a @lengthOf(float) `" ++ [233]%N ++ runes_of_ascii "`,
-}")).
-Eval vm_compute in ("<<<M1976>>>" ++ check (runes_of_ascii "options {
-    Foo = ""it's""
-    lengthOf = int8
-    falsey = 7;
-    a1 = false;
-}
-
-MetaData repeatCount {
-    T repeatCount,
-    u8x msg_type `// not a comment`,
-    repeatCount T,
-}
-
-packet repeatCount {
-    @tag(007)
-    i64_ As,
-}
-
-root packet packetx {
-    string T @calculatedFrom(""{,}""),
-    repeat zchar[4294967296] x,
-    @tag(42)
-    @lengthOf(lengthOf)
-    /// triple
-    @calculatedFrom(""`tick`"")
-    repeat u16 u128 `say ""hi""`,// trailing space 
-    @rightPad()
-    @tag(255)
-    repeat uint8x Logon,
-    repeat zchar[007] Logon `a\`,
-    @rightPad('0')
-    // @lengthOf(
-    string falsey,
-}")).
-Eval vm_compute in ("<<<M1639>>>" ++ check (runes_of_ascii "packet BodyLength {
-    @rightPad()
-    i32 packetx @lengthOf(leftPad),
-    @lengthOf(MetaDataX)
-    leftPad,
-    _x {
-        match zchar as zchar {
-            [""a\\""] : crc,
-            """ ++ [28040; 24687]%N ++ runes_of_ascii """ : Foo,
-            1 : trueish,
-            42 : rootA,
-            [4294967296] : float,
-            // " ++ [128512]%N ++ runes_of_ascii " emoji
-            ""a\\"" : Foo,
-        },
-        repeat float leftPad,
-        uint8x i8i8,
-        char[255] As,
-    },
-    char[4294967296] uint8x `u8 x,`,
-    @leftPad()
-    float32 body `two words`,
-}")).
-Eval vm_compute in ("<<<M1997>>>" ++ check (runes_of_ascii "
-MetaData a1
-{ u128 	 // @lengthOf(
-	As	,
-char[ 
-4294967296 ] 
-lengthOf ,
-    uint64  msg_type
-
-    ,
-
-    x_y_z
-
-f32a	,
-
-    float32 o // " ++ [27880; 37322]%N ++ runes_of_ascii "
-, }options 
-
-    // " ++ [27880; 37322]%N ++ runes_of_ascii "
-
-	// " ++ [128512]%N ++ runes_of_ascii " emoji
-    {
-    //x
-  	// @lengthOf(
-    } MetaData
-	string_  {} 
-packet	roots  { repeat
-
-    f32 As
-`" ++ [28040; 24687; 31867; 22411]%N ++ runes_of_ascii "`
-
-,  }	options  {
-        // " ++ [128512]%N ++ runes_of_ascii " emoji
-
-uint8x
-= ""a	b""  Packet //
-    =
-
-42 ;  pack = 10
-
-    ; 
-tag =
-
-string
-	;repeatCount 
-= // " ++ [27880; 37322]%N ++ runes_of_ascii "
-		char[  0
-	] 
-; } ")).
-Eval vm_compute in ("<<<M1728>>>" ++ check (runes_of_ascii "  // packet A { u8 x, }
-root packet
-
-    charz
-{matchKey{ repeat	Foo
-{// trailing space 
-  uint8 chars	@lengthOf(
-
-x 
-)
-    ,} //
-    	,
-pack
-
-    { rootA @lengthOf( MetaDataX// c
-
-) 
-,
-
-    }// a // b
-    , roots{zchar[
-
-    10  ] leftPad
-    , }
-
-    ,
-    repeat	pack
-
-stringy 
-`two words`  ,
-
-}  , }packet  rootA 
-{ char[ 
-10 ] 
-x_y_z  `{ , }`, uint64
-
-falsey , 
-  // " ++ [27880; 37322]%N ++ runes_of_ascii "
-		} ")).
-Eval vm_compute in ("<<<M1766>>>" ++ check (runes_of_ascii "packet crc
-    { // " ++ [128512]%N ++ runes_of_ascii " emoji
-
-	int
-`" ++ [28040; 24687; 31867; 22411]%N ++ runes_of_ascii "`
-, repeat
-Header`doc` 
-, @tag(
-// " ++ [128512]%N ++ runes_of_ascii " emoji
-	65535
-
-) 
-leftPad
-    BodyLength
-    `// not a comment` 	 // " ++ [128512]%N ++ runes_of_ascii " emoji
-  , /// triple
-	char[
-    42 ]  roots`` 	 // a // b
-		,	}
-
-    packet uint8x
-    // `tick` ""quote"" 'q'
-    {
-
-@lengthOf( i8i8
-)
+    ) A , pack charz
     // trailing space 
-  	//	t
-    Pad
-
-    MetaDataX//	t
-		,}
-
-")).
-Eval vm_compute in ("<<<M135>>>" ++ check (runes_of_ascii "packet T{ } packet string_ { @tag(7	)repeat uint8 rootA
-    // " ++ [27880; 37322]%N ++ runes_of_ascii "
-    ,@lengthOf(	o
-    )
-    float
-u ,// trailing space 
-Packet @calculatedFrom(
-    ""a\\"" ) ,
-    f32	repeatCount `say ""hi""` /// triple
-, } packet MetaDataX	{match	leftPad as Packet { 007
-: // `tick` ""quote"" 'q'
-x ,
-} , // trailing space 
-}")).
-Eval vm_compute in ("<<<M324>>>" ++ check (runes_of_ascii "packet charz
-    {repeat
-Z9_
-    x , @calculatedFrom( ""`tick`""
-) string A`crlf
-line` ,
-repeat
-    crc// trailing space 
-{
-repeat u8x , char[42 //
-] //x
-x @lengthOf(
-o )	,} ,} MetaData //
-tag { uint16 falsey
-    `say ""hi""` ,
-i32 asx ,char[ 007 ] As
-// a // b
-/// triple
-, }
-")).
-Eval vm_compute in ("<<<M59>>>" ++ check (runes_of_ascii "packet _x { Packet { chars
-    Logon
-,int8 float , i64 rootA `" ++ [233]%N ++ runes_of_ascii "` ,} /// triple
-,@calculatedFrom(
-""abc"" )
-    x_y_z
-{ leftPad // trailing space 
-charz
-`a\` ,i32 metadata `say ""hi""` ,} , charz rootA `u8 x,`, }  root// " ++ [128512]%N ++ runes_of_ascii " emoji
-packet f32a//
-{ }
-")).
-Eval vm_compute in ("<<<M388>>>" ++ check (runes_of_ascii "options options
-{
-matchKey = 42/// triple
-x='0' ;
-// packet A { u8 x, }
+    `a\` , @lengthOf(
 //
-charz
-=
-// packet A { u8 x, }
-// trailing space 
-true  ; } MetaData BodyLength
-{
-uint8
-pack,zchar[ 1]float ,  float32 x_y_z `` ,u32
-_x,i16 body  , }
-")).
-Eval vm_compute in ("<<<M404>>>" ++ check (runes_of_ascii "options
-{
-matchKey root 42/// triple
-x='0' ;
-// packet A { u8 x, }
 //
-charz
-=
-// packet A { u8 x, }
-// trailing space 
-true  ; } MetaData BodyLength
-{
-uint8
-pack,zchar[ 1]float ,  float32 x_y_z `` ,u32
-_x,i16 body  , }
-")).
-Eval vm_compute in ("<<<M575>>>" ++ check (runes_of_ascii "options
-{
-matchKey = 42/// triple
-x='0' ;
-// packet A { u8 x, }
-//
-charz
-=
-// packet A { u8 x, }
-// trailing space 
-t@xrue  ; } MetaData BodyLength
-{
-uint8
-pack,zchar[ 1]float ,  float32 x_y_z `` ,u32
-_x,i16 body  , }
-")).
-Eval vm_compute in ("<<<M433>>>" ++ check (runes_of_ascii "options
-{
-matchKey = 42/// triple
-x='0' ;
-// packet A { u8 x, }
-//
-=
-charz
-// packet A { u8 x, }
-// trailing space 
-true  ; } MetaData BodyLength
-{
-uint8
-pack,zchar[ 1]float ,  float32 x_y_z `` ,u32
-_x,i16 body  , }
-")).
-Eval vm_compute in ("<<<M426>>>" ++ check (runes_of_ascii "options
-{
-matchKey = 42/// triple
-x='0' 
-// packet A { u8 x, }
-//
-charz
-=
-// packet A { u8 x, }
-// trailing space 
-true  ; } MetaData BodyLength
-{
-uint8
-pack,zchar[ 1]float ,  float32 x_y_z `` ,u32
-_x,i16 body  , }
-")).
-Eval vm_compute in ("<<<M431>>>" ++ check (runes_of_ascii "options
-{
-matchKey = 42/// triple
-x='0' ;
-// packet A { u8 x, }
-//
-
-=
-// packet A { u8 x, }
-// trailing space 
-true  ; } MetaData BodyLength
-{
-uint8
-pack,zchar[ 1]float ,  float32 x_y_z `` ,u32
-_x,i16 body  , }
-")).
-Eval vm_compute in ("<<<M166>>>" ++ check (runes_of_ascii "packet u128 {
-@rightPad (
-    ' '
-    //x
-    )// c
-Packet , f64
-//
-// @lengthOf(
-Pad `it's` , }packet i64_{ } packet trueish { @leftPad	( '\x00')leftPad
-@calculatedFrom( // " ++ [27880; 37322]%N ++ runes_of_ascii "
-""`tick`"" ) `u8 x,` , }
-")).
-Eval vm_compute in ("<<<M706>>>" ++ check (runes_of_ascii "// c
-packet i64_ {	char[] calculatedFrom , } packet
-trueish  {@calculatedFrom(
-""a\\"" ""a\\"" ) o { i32 falsey@lengthOf( uint8x ),
-} , } // `tick` ""quote"" 'q'
-options {// c
-Z9_ = ' '//
-}
-")).
-Eval vm_compute in ("<<<M1908>>>" ++ check (runes_of_ascii "options {
-    // `tick` ""quote"" 'q'
-    len = """ ++ [28040; 24687]%N ++ runes_of_ascii """;
-    options1 = int32
-    zchar = ""1"";
-    float = true
-    tag = """ ++ [28040; 24687]%N ++ runes_of_ascii """;
-}
-
-MetaData u128 {
-    msg_type i8i8 `doc`,
-    o body,
-}")).
-Eval vm_compute in ("<<<M1839>>>" ++ check (runes_of_ascii "packet A {
-    match k as n {
-        [
-            ""a"", ""bb"", ""c c"", ""d"", ""e"",
-            ""f"", ""g"", ""h"", ""i"", ""j"",
-            ""k"", ""l""
-        ] : B,
-        2 : C,
-    },
-}")).
-Eval vm_compute in ("<<<M81>>>" ++ check (runes_of_ascii "root packet
-x_y_z {
-    @leftPad
-    (
-' ')uint8x { float32 len @calculatedFrom(""it's""
-    //
-    )
-`" ++ [233]%N ++ runes_of_ascii "` ,match o as stringy{ [""{,}""
-    ] : x
+u8x ) match repeatCount as
+packetx	{ 1
+: options1 , ""\" ++ [233]%N ++ runes_of_ascii """: matchKey  , 10:Foo
+    , [ ""1""] :
+    i64_
+    } , @tag(0123456789 )
+@tag( 4294967296// " ++ [27880; 37322]%N ++ runes_of_ascii "
+) uint16 body`say ""hi""`
+    , /// triple
+u32 float
+@calculatedFrom(""a\\""  )
+,
+char[ 0
+] calculatedFrom ,
+    //	t
+    A @lengthOf( options1 )
+    `line1
+line2`
+    ,
+    } MetaData	o  {	uint8 Logon
     , }
-    ,
-}
-, }
 ")).
-Eval vm_compute in ("<<<M1390>>>" ++ check (runes_of_ascii "packet
-A
-
-{ u8
-
-    a
-    ,
-
-}
-	packet
-B
-{
-u16 b
+Eval vm_compute in ("<<<M640>>>" ++ check (runes_of_ascii "packet
+T { zchar[ 1 ]
+    msg_type
 ,
-    }
-    root
-packet P{
-u8
-K  ,match K	as M
-	{
-[ 1 ,
-	2
-] : A , 3	: B , 
-7 
-:	A, 
-} , }
-")).
-Eval vm_compute in ("<<<M1586>>>" ++ check (runes_of_ascii "packet
-
-Logon
-
-{
-
-    @tag(42
-
-    )
-    @rightPad (
-' '
-
-    )@leftPad(
-)repeat 
-trueish {
-
-    string T 
-	    // c
-	, },
-
-}
-")).
-Eval vm_compute in ("<<<M2022>>>" ++ check (runes_of_ascii "packet A {
-    match k as n {
-        [
-            1, 22, 007, 4, 5,
-            66, 7, 8, 9
-        ] : B,
-        2 : C,
-    },
-}")).
-Eval vm_compute in ("<<<M455>>>" ++ check (runes_of_ascii "options
-{
-matchKey = 42/// triple
-x='0' ;
-// packet A { u8 x, }
+@tag( 007 )o  ,
+@tag( 10
+)match//
+x// 50% %s
+as
+a1 { 4294967296
+:tag , //x
+""`tick`"" : zchar,[ 4294967296	,
+    ""a	b"" ] :
 //
-charz
-=
-// packet A { u8 x, }
-// trailing space 
-true  ;")).
-Eval vm_compute in ("<<<M1837>>>" ++ check (runes_of_ascii "  packet	calculatedFrom { @tag( 4294967296	) u msg_type, char[  3
-
-    ]
-crc  // c
-  @lengthOf(
-	len 
-)
-`u8 x,`
-,  }")).
-Eval vm_compute in ("<<<M1657>>>" ++ check (runes_of_ascii "packet A
-{
-
-match
-	k  as
-n
-{
-[ ""a"" ,
-	""bb"",
-	""c c""
-,	""d""
-    , 
-""e""  ,	""f"" ,
-""g""
-    , ""h""
+/// triple
+roots ,
+    1	:T ,[  7,""CRC32"" ] : zchar [	""packet""
+,
+// " ++ [128512]%N ++ runes_of_ascii " emoji
+//
+65535 ] :// a // b
+asx
+,} , @leftPad
+    ('0'
+) float64 // packet A { u8 x, }
+Foo `line1
+line2` ,
+    match trueish //
+as T
+    // " ++ [27880; 37322]%N ++ runes_of_ascii "
+    { [""x y"" ]: float , [ 255]
+    :
+    trueish , 3 :
+trueish , [
+    ""`tick`""
+    , ""x y""
 ]
-: B
-	, 2 
-: C}
-
-,}
-
-")).
-Eval vm_compute in ("<<<M1611>>>" ++ check (runes_of_ascii "
-
-  packet A {match
-k
-
-    as
-    n{  [	""a"" , 22
+:int  , ""{,}"" : //
+rootA ,  }, }")).
+Eval vm_compute in ("<<<M581>>>" ++ check (runes_of_ascii "packet msg_type{ // @lengthOf(
+u64// c
+matchKey ``
+//x
+// " ++ [128512]%N ++ runes_of_ascii " emoji
+,@tag(	3
+    ) u8 As /// triple
+, char[1 ]roots
+    , }packet a1  {zchar[
+// 50% %s
+// packet A { u8 x, }
+0 ] i64_	`" ++ [233]%N ++ runes_of_ascii "`
 ,
-""c c""
-,
-
-4,  ""e""	, 66
-	, 
-""g""
-, 8  ]	: 
-B 2
-: C
-
-    } ,}
+@lengthOf( repeatCount ) repeat
+    zchar[
+    10]
+BodyLength  , zchar[ 255 ]  _x
+@calculatedFrom( ""packet"" ) , @rightPad
+(
+) @calculatedFrom(
+    // packet A { u8 x, }
+    ""x y"" ) zchar[ // " ++ [128512]%N ++ runes_of_ascii " emoji
+65535  ]
+f32a,
+} options{ asx =i32 x= ""packet""
+/// triple
+// c
+; o = 00 ; int =//x
+""" ++ [28040; 24687]%N ++ runes_of_ascii """
+    }
 ")).
-Eval vm_compute in ("<<<M1573>>>" ++ check (runes_of_ascii "packet
-    Logon{ @tag(	42
+Eval vm_compute in ("<<<M964>>>" ++ check (runes_of_ascii "  root packet // 50% %s
+uint8x{ @leftPad (
+    ' ' //	t
+) // packet A { u8 x, }
+char[ 0	] // 50% %s
+matchKey@calculatedFrom(  ""`tick`"" )	, @tag(
+0
+)
+int32 f32a
+@lengthOf( msg_type ) , u8x  @calculatedFrom(
+    // @lengthOf(
+    ""a	b""	),repeat falsey
+`" ++ [28040; 24687; 31867; 22411]%N ++ runes_of_ascii "`, } options { roots
+    =""\" ++ [233]%N ++ runes_of_ascii """ o= '\x00' // `tick` ""quote"" 'q'
+;
+u
+    =char[ 7 ]	metadata
+// " ++ [128512]%N ++ runes_of_ascii " emoji
+// trailing space 
+=  true float=  ""\n""// trailing space 
+;}
+MetaData crc
+    {
+body
+A `" ++ [233]%N ++ runes_of_ascii "` , }
+")).
+Eval vm_compute in ("<<<M479>>>" ++ check (runes_of_ascii "options { /// triple
+falsey
+=
+' ' Pad = ' '
+    ; crc = '0' ;
+tag=007}
+/// triple
+//
+MetaData  asx { chars metadata`" ++ [28040; 24687; 31867; 22411]%N ++ runes_of_ascii "`, asx chars // `tick` ""quote"" 'q'
+, char[ 007 ]
+// c
+// 50% %s
+A `// not a comment` ,	char[] crc,
+}// a // b
+MetaData T
+{ char BodyLength,
+    char[ 255//
+] f32a ,char[10
+] // " ++ [128512]%N ++ runes_of_ascii " emoji
+trueish ,	int64 i8i8// " ++ [128512]%N ++ runes_of_ascii " emoji
+, u16	rootA
+, zchar[ 0 // packet A { u8 x, }
+] Z9_`// not a comment` , } options
+{ len =
+i16 ;  }
+")).
+Eval vm_compute in ("<<<M627>>>" ++ check (runes_of_ascii "MetaData Z9_{ char[
+10 ]i64_
+    // `tick` ""quote"" 'q'
+    , }packet options1
+    { float32//x
+pack
+    `
+`	,
+char[
+1 ]tag , repeat roots{
+    match// `tick` ""quote"" 'q'
+x as a1 { 007 :a1 , } //x
+,repeat MetaDataX { i8 zchar , i64_{ int32 // c
+Packet , match
+    // " ++ [128512]%N ++ runes_of_ascii " emoji
+    u // " ++ [27880; 37322]%N ++ runes_of_ascii "
+as asx
+{ [ """ ++ [233]%N ++ runes_of_ascii "t" ++ [233]%N ++ runes_of_ascii """	] : a1 } ,int8 metadata
+    `a\`
+,} ,
+int@lengthOf(	lengthOf
+) , repeat // " ++ [128512]%N ++ runes_of_ascii " emoji
+x_y_z int `" ++ [28040; 24687; 31867; 22411]%N ++ runes_of_ascii "` ,
+}
+,
+    } , }
+")).
+Eval vm_compute in ("<<<M4292>>>" ++ check (runes_of_ascii "options {
+    Header = '\x00'
+}
 
-)	@rightPad	(  ' ') // c
-    @leftPad ( )
-repeat  trueish 
-{ string
+root packet MetaDataX {
+    char[0123456789] leftPad `tab	here`,
+    @lengthOf(rootA)
+    uint8 u ``,
+    match string_ as Pad {
+        255 : a1,
+        // a // b
+        [4294967296] : msg_type,
+        [3] : u128,
+        255 : crc,
+        [
+            0123456789, ""a\""b"", ""a\""b"", """", """",
+            ""CRC32"", ""CRC32""
+        ] : crc,
+        // " ++ [27880; 37322]%N ++ runes_of_ascii "
+    },
+}
+
+packet asx {
+}")).
+Eval vm_compute in ("<<<M939>>>" ++ check (runes_of_ascii "packet
+    charz
+    { @lengthOf( x)
+    T
+    rootA
+    // trailing space 
+    `u8 x,` , repeat Logon
+stringy , } packet len { string //	t
+As `` ,
+x_y_z {
+string x
+@calculatedFrom( ""\n"" )
+`two words` , u128 @lengthOf(
+    pack ) ,
+    char[ 10 ] // trailing space 
+crc @lengthOf(
+    i8i8
+) `u8 x,` , repeat char[] MetaDataX
+    , } ,
+    int16 matchKey `a\`
+,
+    // packet A { u8 x, }
+    }
+")).
+Eval vm_compute in ("<<<M99>>>" ++ check (runes_of_ascii "packet
+// packet A { u8 x, }
+/// triple
+u
+{ repeat
+Z9_
+u // @lengthOf(
+,
+match roots as  A {""\n""  :  i64_ // 50% %s
+, }, A@calculatedFrom( ""packet"")// " ++ [128512]%N ++ runes_of_ascii " emoji
+, u64 tag
+@lengthOf( A ) `100% of %d` ,	@lengthOf(Pad ) @rightPad (  )@lengthOf( pack )  match o
+    //	t
+    as uint8x {4294967296 :o,00
+: A , }, @rightPad (
+    '\x00'
+)char[ 0123456789
+    ] msg_type ,}
+/// triple
+")).
+Eval vm_compute in ("<<<M4172>>>" ++ check (runes_of_ascii "root packet lengthOf {
+    @tag(7)
+    // c
+    Pad @lengthOf(roots) `line1
+    line2`,
+    float64 o @lengthOf(asx),
+    repeat uint8 i8i8 `say ""hi""`,
+}
+
+packet _x {
+    @calculatedFrom(""\n"")
+    As @calculatedFrom(""abc"") `// not a comment`,
+    options1 @lengthOf(a1),
+    // trailing space 
+    // `tick` ""quote"" 'q'
+    @lengthOf(Z9_)
+    //	t
+    msg_type ``,
+}")).
+Eval vm_compute in ("<<<M1300>>>" ++ check (runes_of_ascii "MetaData crc{
+int matchKey , i32
+    msg_type `tab	here`  ,i8  As `it's`,f64 asx, // " ++ [27880; 37322]%N ++ runes_of_ascii "
+}
+root
+    packet i8i8 { match body as /// triple
+o
+{ 3 :
+i8i8
+,007
+:
+u128
+    , 10 : calculatedFrom ,	[ // trailing space 
+3
+    , 0 ]:rootA
+    // @lengthOf(
+    , } ,
+}
+    // " ++ [128512]%N ++ runes_of_ascii " emoji
+    MetaData Pad
+    { i32
+// " ++ [27880; 37322]%N ++ runes_of_ascii "
+// " ++ [128512]%N ++ runes_of_ascii " emoji
+asx , } // packet A { u8 x, }")).
+Eval vm_compute in ("<<<M62>>>" ++ check (runes_of_ascii "packet  trueish{ trueish uint8x ,
+char[ 3]roots
+    `" ++ [233]%N ++ runes_of_ascii "`, int16
+x_y_z , }
+    MetaData
+//
+// a // b
+o { // trailing space 
+f64 stringy
+`100% of %d` ,Z9_ len, len x , char[ 00] _x , } MetaData
+    string_ {	msg_type
+    T, f32 tag`say ""hi""` ,char[]asx `doc` ,
+u //	t
+asx // " ++ [128512]%N ++ runes_of_ascii " emoji
+, char[ 65535 ] trueish,zchar[0123456789 ] asx , }
+")).
+Eval vm_compute in ("<<<M245>>>" ++ check (runes_of_ascii "packet  len{x_y_z body  `100% of %d` ,
+@tag(  1)
+zchar[ 4294967296] u
+`two words`
+    ,
+@tag( 007)match BodyLength	as
+    Z9_ {[  007 , 4294967296 , ""packet"" ,
+""\n"",  10
+,
+    ""CRC32""]  :
+    repeatCount
+    42 :len , [	42
+    , ""packet""]
+    :MetaDataX ,	}
+    ,@rightPad(
+) zchar[42 ]
+x_y_z @lengthOf(
+Pad ) `doc` ,}
+")).
+Eval vm_compute in ("<<<M998>>>" ++ check (runes_of_ascii "// c
+MetaData options1//	t
+{ char
+    // a // b
+    i8i8
+`100% of %d`
+    // packet A { u8 x, }
+    ,
+zchar[ // a // b
+7 ] tag , } packet
+    pack{@tag( // " ++ [27880; 37322]%N ++ runes_of_ascii "
+0 )  zchar[
+    // " ++ [27880; 37322]%N ++ runes_of_ascii "
+    65535] a1
+    `two words` , repeat
+    msg_type , char[]  Logon ,string
+    /// triple
+    u8x `two words` ,
+chars zchar , }")).
+Eval vm_compute in ("<<<M3700>>>" ++ check (runes_of_ascii "packet 
+B// c1
+	{ // c2
+
+	u8 	 // c3
+    a// c4a
+// c4b
+    ,// c5
+	  string  // c6a
+  // c6b
+	  s	// c7a
+// c7b
+    ,  }
+root // c10a
+
+// c10b
+	packet	// c11
+	P{// c13
+
+u16
+L // c15
+
+	@lengthOf(	B
+
+) 
+
+    // c18
+    ,  // c19
+	B
+	, // c21
+    u8	// c22
+	  t // c23
+
+	,	// c24
+  } // c25
+")).
+Eval vm_compute in ("<<<M1889>>>" ++ check (runes_of_ascii "packet	packetx { // trailing space 
+x_y_z
+{
+string
+charz ,
+@calculatedFrom( x// @lengthOf(
+`two words`
+    ,  u8x { // `tick` ""quote"" 'q'
+charz `100% of %d` // packet A { u8 x, }
+,}// " ++ [27880; 37322]%N ++ runes_of_ascii "
+,} , }
+    // a // b
+    packet metadata {  @leftPad ( '0') repeat i32 options1 ,u64 uint8x , }
+")).
+Eval vm_compute in ("<<<M25>>>" ++ check (runes_of_ascii "  MetaData
+    BodyLength
+// a // b
+//	t
+{ u64 asx
+    , char  string_ , }	packet leftPad
+    {
+int8 u8x@calculatedFrom( ""a\\"" )  , }
+MetaData As {
+roots x_y_z
+`it's`
+    , char
+    rootA//x
+,zchar[
+00 ]
+uint8x `doc` ,char[] metadata`100% of %d` ,  Z9_ string_
+    ,
+} packet o {}")).
+Eval vm_compute in ("<<<M1927>>>" ++ check (runes_of_ascii "packet	packetx { // trailing space 
+x_y_z
+{
+string
+charz ,
+string x// @lengthOf(
+`two words`
+    ,  u8x { // `tick` ""quote"" 'q'
+charz `100% of %d` // packet A { u8 x, }
+, ,}// " ++ [27880; 37322]%N ++ runes_of_ascii "
+,} , }
+    // a // b
+    packet metadata {  @leftPad ( '0') repeat i32 options1 ,u64 uint8x , }
+")).
+Eval vm_compute in ("<<<M1869>>>" ++ check (runes_of_ascii "packet	packetx { // trailing space 
+x_y_z
+[
+string
+charz ,
+string x// @lengthOf(
+`two words`
+    ,  u8x { // `tick` ""quote"" 'q'
+charz `100% of %d` // packet A { u8 x, }
+,}// " ++ [27880; 37322]%N ++ runes_of_ascii "
+,} , }
+    // a // b
+    packet metadata {  @leftPad ( '0') repeat i32 options1 ,u64 uint8x , }
+")).
+Eval vm_compute in ("<<<M2013>>>" ++ check (runes_of_ascii "packet	packetx { // trailing space 
+x_y_z
+{
+string
+charz ,
+string x// @lengthOf(
+`two words`
+    ,  u8x { // `tick` ""quote"" 'q'
+charz `100% of %d` // packet A { u8 x, }
+,}// " ++ [27880; 37322]%N ++ runes_of_ascii "
+,} , }
+    // a // b
+    packet metadata {  @leftPad ( '0') repeat i32 options1 ,uint8x u64 , }
+")).
+Eval vm_compute in ("<<<M3559>>>" ++ check (runes_of_ascii "options {
+    LittleEndian = false;
+    StringPrefixLenType = u32;
+    ArrayPrefixLenType = u64;
+    FixedStringPadFromLeft = false;
+    FixedStringPadChar = '0';
+}
+packet Fill {
+    zchar[6] price,
+}
+root packet Quote {
+    Fill,
+    float32 count,
+    repeat f64 OrderId,
+}
+")).
+Eval vm_compute in ("<<<M1848>>>" ++ check (runes_of_ascii "	packetx { // trailing space 
+x_y_z
+{
+string
+charz ,
+string x// @lengthOf(
+`two words`
+    ,  u8x { // `tick` ""quote"" 'q'
+charz `100% of %d` // packet A { u8 x, }
+,}// " ++ [27880; 37322]%N ++ runes_of_ascii "
+,} , }
+    // a // b
+    packet metadata {  @leftPad ( '0') repeat i32 options1 ,u64 uint8x , }
+")).
+Eval vm_compute in ("<<<M3729>>>" ++ check (runes_of_ascii "
+packet
+chars
+{
+
+repeat uint64
+repeatCount `100% of %d`, calculatedFrom
+{  string  body
+@calculatedFrom(
+    ""\n""
+
+)
+
+    `doc`,
 T
 
+@calculatedFrom( ""x y""
+
+)  ,}  ,	repeat zchar[
+
+    0123456789	]pack  // 50% %s
+  ,
+repeat
+
+float
+	asx
+
+    `tab	here`
 ,
-    } ,
-}")).
-Eval vm_compute in ("<<<M879>>>" ++ check (runes_of_ascii "packet A {
-  match k as n {
-    [""a"", ""bb"", ""c c"", ""d"", ""e"", ""f"", ""g"", ""h"", ""i"", ""j""] : B,
-    2 : C
-  },
-}")).
-Eval vm_compute in ("<<<M925>>>" ++ check (runes_of_ascii "packet A {
-    Inner {
-        u8 x `a
-b`,
-        Deep {
-            u8 y `a
-b`,
-        },
-    },
-}")).
-Eval vm_compute in ("<<<M1282>>>" ++ check (runes_of_ascii "packet calculatedFrom { @tag( 4294967296 ) u msg_type , char[ 3 ] crc @lengthOf( len
+	}")).
+Eval vm_compute in ("<<<M2090>>>" ++ check (runes_of_ascii "packet// packet A { u8 x, }
+repeatCount	{// packet A { u8 x, }
+@leftPad ( '\x00'
+) repeat u8x u8x MetaDataX `crlf
+line`,
+    repeat
+    char[] MetaDataX
+    ,
+u64	uint8x@calculatedFrom(""a\""b""
 // c
-) `u8 x,` , }")).
-Eval vm_compute in ("<<<M955>>>" ++ check (runes_of_ascii "packet A {
-    Inner {
-        u8 x `
-x`,
-        Deep {
-            u8 y `
-x`,
-        },
-    },
-}")).
-Eval vm_compute in ("<<<M870>>>" ++ check (runes_of_ascii "packet A {
-  match k as n {
-    [""a"", 22, ""c c"", 4, ""e"", 66, ""g"", 8, ""i""] : B,
-    2 : C
-  },
-}")).
-Eval vm_compute in ("<<<M1160>>>" ++ check (runes_of_ascii "packet Logon { @tag( 42 ) @rightPad ( ' ' ) @leftPad ( ) repeat trueish { // c
-string T , } , }")).
-Eval vm_compute in ("<<<M1592>>>" ++ check (runes_of_ascii "  packet A{ match k
-
-    as n
-    { [
-1
-
-,	""bb""	,	007,
-
-""d""
-
-    ]: B,	2 
-:C
-} ,
-    } ")).
-Eval vm_compute in ("<<<M849>>>" ++ check (runes_of_ascii "packet A {
-  match k as n {
-    [""a"", ""bb"", 007, ""d"", ""e"", 66, ""g""] : B
-    2 : C
-  },
-}")).
-Eval vm_compute in ("<<<M860>>>" ++ check (runes_of_ascii "packet A {
-  match k as n {
-    [1, 22, ""c c"", 4, 5, ""f"", 7, 8] : B
-    2 : C
-  },
-}")).
-Eval vm_compute in ("<<<M1211>>>" ++ check (runes_of_ascii "packet o
-// c
-{ @tag( 42 ) repeat x { char[ 0123456789 ] i64_ , } , } options { }")).
-Eval vm_compute in ("<<<M1243>>>" ++ check (runes_of_ascii "packet o { @tag( 42 ) repeat x { char[ 0123456789 ] i64_ , } , } options
-// c
-{ }")).
-Eval vm_compute in ("<<<M234>>>" ++ check (runes_of_ascii "packet	As{ match  repeatCount as metadata
-{ 007 : //x
-crc, ""a	b"" :
-    A} , }
+// packet A { u8 x, }
+) `tab	here`
+,//
+}MetaData pack
+    {
+    }
 ")).
-Eval vm_compute in ("<<<M1904>>>" ++ check (runes_of_ascii "options {
-    metadata = ""a	b""
-    u = 0;// trailing space 
-    i8i8 = 0;
+Eval vm_compute in ("<<<M2193>>>" ++ check (runes_of_ascii "packet// packet A { u8 x, }
+repeatCount	{// packet A { u8 x, }
+@leftPad % ( '\x00'
+) repeat u8x MetaDataX `crlf
+line`,
+    repeat
+    char[] MetaDataX
+    ,
+u64	uint8x@calculatedFrom(""a\""b""
+// c
+// packet A { u8 x, }
+) `tab	here`
+,//
+}MetaData pack
+    {
+    }
+")).
+Eval vm_compute in ("<<<M2081>>>" ++ check (runes_of_ascii "packet// packet A { u8 x, }
+repeatCount	{// packet A { u8 x, }
+@leftPad ( '\x00'
+repeat ) u8x MetaDataX `crlf
+line`,
+    repeat
+    char[] MetaDataX
+    ,
+u64	uint8x@calculatedFrom(""a\""b""
+// c
+// packet A { u8 x, }
+) `tab	here`
+,//
+}MetaData pack
+    {
+    }
+")).
+Eval vm_compute in ("<<<M2124>>>" ++ check (runes_of_ascii "packet// packet A { u8 x, }
+repeatCount	{// packet A { u8 x, }
+@leftPad ( '\x00'
+) repeat u8x MetaDataX `crlf
+line`,
+    repeat
+    char[] MetaDataX
+    
+u64	uint8x@calculatedFrom(""a\""b""
+// c
+// packet A { u8 x, }
+) `tab	here`
+,//
+}MetaData pack
+    {
+    }
+")).
+Eval vm_compute in ("<<<M1415>>>" ++ check (runes_of_ascii "packet packet calculatedFrom
+{ @calculatedFrom( ""a\\"" ) zchar[ 4294967296 ]
+calculatedFrom@lengthOf( pack )	`100% of %d` ,char[]body@calculatedFrom( ""// no comment"" )  ,
+@tag( 007) //x
+int8
+leftPad`it's` , repeat pack
+    { repeat char[ 3] body
+,},
 }")).
-Eval vm_compute in ("<<<M789>>>" ++ check (runes_of_ascii "packet A {
-  match k as n {
-    [""a"", ""bb"", ""c c""] : B
-    2 : C
-  },
+Eval vm_compute in ("<<<M1581>>>" ++ check (runes_of_ascii "packet calculatedFrom
+{ @calculatedFrom( ""a\\"" ) zchar[ 4294967296 ]
+calculatedFrom@lengthOf( pack )	`100% of %d` ,char[]body@calculatedFrom( ""// no comment"" )  ,
+@tag( 007) //x
+int8
+leftPad`it's` , repeat pack
+    { repeat char[ string] body
+,},
 }")).
-Eval vm_compute in ("<<<M1325>>>" ++ check (runes_of_ascii "MetaData _x { zchar[ 4294967296 ] lengthOf `// not a comment` , // c
+Eval vm_compute in ("<<<M1484>>>" ++ check (runes_of_ascii "packet calculatedFrom
+{ @calculatedFrom( ""a\\"" ) zchar[ 4294967296 ]
+calculatedFrom@lengthOf( pack )	`100% of %d` , ,char[]body@calculatedFrom( ""// no comment"" )  ,
+@tag( 007) //x
+int8
+leftPad`it's` , repeat pack
+    { repeat char[ 3] body
+,},
 }")).
-Eval vm_compute in ("<<<M1899>>>" ++ check (runes_of_ascii "root
-packet 
-
+Eval vm_compute in ("<<<M1620>>>" ++ check (runes_of_ascii "packet calculatedFrom
+{ @calculatedFrom( ""a\\"" ) zchar[ 4294967296 ]
+calculatedFrom@lengt""hOf( pack )	`100% of %d` ,char[]body@calculatedFrom( ""// no comment"" )  ,
+@tag( 007) //x
+int8
+leftPad`it's` , repeat pack
+    { repeat char[ 3] body
+,},
+}")).
+Eval vm_compute in ("<<<M1495>>>" ++ check (runes_of_ascii "packet calculatedFrom
+{ @calculatedFrom( ""a\\"" ) zchar[ 4294967296 ]
+calculatedFrom@lengthOf( pack )	`100% of %d` ,char[]@calculatedFrom(body ""// no comment"" )  ,
+@tag( 007) //x
+int8
+leftPad`it's` , repeat pack
+    { repeat char[ 3] body
+,},
+}")).
+Eval vm_compute in ("<<<M1508>>>" ++ check (runes_of_ascii "packet calculatedFrom
+{ @calculatedFrom( ""a\\"" ) zchar[ 4294967296 ]
+calculatedFrom@lengthOf( pack )	`100% of %d` ,char[]body@calculatedFrom( ""// no comment""   ,
+@tag( 007) //x
+int8
+leftPad`it's` , repeat pack
+    { repeat char[ 3] body
+,},
+}")).
+Eval vm_compute in ("<<<M1607>>>" ++ check (runes_of_ascii "packet calculatedFrom
+{ @calculatedFrom( ""a\\"" ) zchar[ 4294967296 ]
+calculatedFrom@lengthOf( pack )	`100% of %d` ,char[]body@calculatedFrom( ""// no comment"" )  ,
+@tag( 007) //x
+int8
+leftPad`it's` , repeat pack
+    { repeat char[ 3] body
+,}")).
+Eval vm_compute in ("<<<M1597>>>" ++ check (runes_of_ascii "packet calculatedFrom
+{ @calculatedFrom( ""a\\"" ) zchar[ 4294967296 ]
+calculatedFrom@lengthOf( pack )	`100% of %d` ,char[]body@calculatedFrom( ""// no comment"" )  ,
+@tag( 007) //x
+int8
+leftPad`it's` , repeat pack
+    { repeat char[ 3] body")).
+Eval vm_compute in ("<<<M2168>>>" ++ check (runes_of_ascii "packet// packet A { u8 x, }
+repeatCount	{// packet A { u8 x, }
+@leftPad ( '\x00'
+) repeat u8x MetaDataX `crlf
+line`,
+    repeat
+    char[] MetaDataX
+    ,
+u64	uint8x@calculatedFrom(""a\""b""
+// c
+// packet A { u8 x, }
+) `tab	here`
+,")).
+Eval vm_compute in ("<<<M1254>>>" ++ check (runes_of_ascii "packet MetaDataX { i32
+    a1 , uint8 Logon
+@lengthOf( a1// 50% %s
+) , packetx
+int `{ , }` , @tag( 7  ) x_y_z @lengthOf(  u)
+    ,
+    } options{ chars = char[7 ]Pad =
+    zchar[ // " ++ [128512]%N ++ runes_of_ascii " emoji
+255] ; x = 0123456789 ;
+}")).
+Eval vm_compute in ("<<<M773>>>" ++ check (runes_of_ascii "// @lengthOf(
+MetaData len
+{ } MetaData x_y_z { }
+packet As{//x
+uint16 i64_ ,  @tag( 1	)
+    @lengthOf(u )
+    @calculatedFrom( ""packet""  )
+u128// " ++ [128512]%N ++ runes_of_ascii " emoji
+, repeat char[ 1 ] T,
     // packet A { u8 x, }
-//	t
-
-  Z9_
-
-    {  }
+    }")).
+Eval vm_compute in ("<<<M809>>>" ++ check (runes_of_ascii "root packet metadata{
+repeat zchar[ 7 ]	roots ,
+@tag(
+255 )
+i64_ @lengthOf( MetaDataX
+) `// not a comment`
+, } options{ As=
+""\n""
+;options1
+    = ""a\""b""  msg_type= char[ 007 ]
+; rootA  = false ;
+}")).
+Eval vm_compute in ("<<<M46>>>" ++ check (runes_of_ascii "  MetaData Foo
+    { char[ // c
+0123456789
+    ]
+Packet ,char[]
+packetx
+`{ , }` , f32 trueish
+// `tick` ""quote"" 'q'
+// @lengthOf(
+,//	t
+uint32
+lengthOf
+    , options1 body , i32
+Logon,  }")).
+Eval vm_compute in ("<<<M3526>>>" ++ check (runes_of_ascii "packet u128 {
+    u8 a,
+}
+root packet Msg {
+    u8 k,
+    u24 {
+        u8 Hi,
+        u16 Lo,
+    },
+    repeat i24 {
+        u32 q,
+    },
+    u128,
+    u16 float32x,
+    string s,
+}
 ")).
-Eval vm_compute in ("<<<M778>>>" ++ check (runes_of_ascii "packet A {
-  match k as n {
-    [1, 22] : B
-    2 : C
-  },
+Eval vm_compute in ("<<<M283>>>" ++ check (runes_of_ascii "root packet i8i8{u32// @lengthOf(
+calculatedFrom `" ++ [28040; 24687; 31867; 22411]%N ++ runes_of_ascii "` , @calculatedFrom( """ ++ [233]%N ++ runes_of_ascii "t" ++ [233]%N ++ runes_of_ascii """) char[ 10]
+    x_y_z
+@calculatedFrom(
+""x y"")	,
+} MetaData matchKey{	stringy u128 `say ""hi""` , }")).
+Eval vm_compute in ("<<<M1297>>>" ++ check (runes_of_ascii "packet o {int  Packet
+,@tag( 255// c
+)
+    // trailing space 
+    @tag( 007) repeat	string lengthOf  ,
+}
+    packet charz { float float
+,leftPad @lengthOf( u )`" ++ [28040; 24687; 31867; 22411]%N ++ runes_of_ascii "` ,
 }")).
-Eval vm_compute in ("<<<M773>>>" ++ check (runes_of_ascii "packet A {
-  match k as n {
-    [1] : B
-    2 : C
-  },
-}")).
-Eval vm_compute in ("<<<M1612>>>" ++ check (runes_of_ascii "MetaData stringy {
-    char[0] chars `{ , }`,
-}")).
-Eval vm_compute in ("<<<M1102>>>" ++ check (runes_of_ascii "// c
-MetaData zchar { zchar[ 3 ] Pad , }")).
-Eval vm_compute in ("<<<M348>>>" ++ check (runes_of_ascii "packet
-    A
-{} options {
-T	=
-'0' }
+Eval vm_compute in ("<<<M4231>>>" ++ check (runes_of_ascii "
+packet
+
+    o
+
+    { @leftPad
+	(// trailing space 
+  '\x00'
+)
+    // 50% %s
+	char[]
+	roots
+@lengthOf(repeatCount
+
+    ) `it's`
+    ,} // `tick` ""quote"" 'q'
 ")).
-Eval vm_compute in ("<<<M1707>>>" ++ check (runes_of_ascii "
-packet  A 
+Eval vm_compute in ("<<<M2399>>>" ++ check (runes_of_ascii "
+packet MetaDataX
 {
-
-    }  
-  // c" ++ [8203]%N ++ runes_of_ascii "
+    @leftPad
+( // a // b
+'0'
+) i8 u @lengthOf(
+MetaDataX
+    ) `say ""hi""` ,	} MetaData BodyLength {
+    asx
+x_y_z `" ++ [233]%N ++ runes_of_ascii "` `" ++ [233]%N ++ runes_of_ascii "`
+, uint64 u128 , }
 ")).
-Eval vm_compute in ("<<<M982>>>" ++ check (runes_of_ascii "packet A {
- u8 x `d" ++ [12288]%N ++ runes_of_ascii "`, // c" ++ [12288]%N ++ runes_of_ascii "
-}")).
-Eval vm_compute in ("<<<M761>>>" ++ check (runes_of_ascii "6h""i_JCeOcKDsBMyC`8Wv)}U=9O")).
-Eval vm_compute in ("<<<M1191>>>" ++ check (runes_of_ascii "options { u8x = // c
-3 }")).
-Eval vm_compute in ("<<<M218>>>" ++ check (runes_of_ascii "
-packet len
-    { }")).
-Eval vm_compute in ("<<<M1006>>>" ++ check (runes_of_ascii "// c" ++ [8202]%N ++ runes_of_ascii "
-packet A {
-}")).
-Eval vm_compute in ("<<<M988>>>" ++ check (runes_of_ascii "packet A {
-}// c" ++ [133]%N)).
-Eval vm_compute in ("<<<M1900>>>" ++ check (runes_of_ascii "
+Eval vm_compute in ("<<<M2356>>>" ++ check (runes_of_ascii "
+packet MetaDataX
+{
+    @leftPad
+( // a // b
+'0'
+) " ++ [8232]%N ++ runes_of_ascii " i8 u @lengthOf(
+MetaDataX
+    ) `say ""hi""` ,	} MetaData BodyLength {
+    asx
+x_y_z `" ++ [233]%N ++ runes_of_ascii "`
+, uint64 u128 , }
+")).
+Eval vm_compute in ("<<<M2430>>>" ++ check (runes_of_ascii "
+packet MetaDataX
+{
+    @leftPad
+( // a // b
+'0'
+) i8 u @lengthOf(
+MetaDataX
+    ) `say ""hi""` ,	} MetaData BodyLength {
+    asx
+char[] `" ++ [233]%N ++ runes_of_ascii "`
+, uint64 u128 , }
+")).
+Eval vm_compute in ("<<<M4083>>>" ++ check (runes_of_ascii "MetaData	metadata
+{
+    }MetaData
+rootA
 
-  // c" ++ [8202]%N ++ runes_of_ascii "
+{	i8  i64_  
+      // c
+  ,roots
+
+options1 `a\` ,
+    lengthOf 
+Header 
+,Z9_ Foo,
+    int16 BodyLength ,
+
+    }
+")).
+Eval vm_compute in ("<<<M2369>>>" ++ check (runes_of_ascii "
+packet MetaDataX
+
+    @leftPad
+( // a // b
+'0'
+) i8 u @lengthOf(
+MetaDataX
+    ) `say ""hi""` ,	} MetaData BodyLength {
+    asx
+x_y_z `" ++ [233]%N ++ runes_of_ascii "`
+, uint64 u128 , }
+")).
+Eval vm_compute in ("<<<M114>>>" ++ check (runes_of_ascii "
+packet
+    chars{	repeat char[ 0123456789	]
+repeatCount , body Foo
+, @calculatedFrom(""\n""
+    )	char[]  int@lengthOf( len )
+,
+    // @lengthOf(
+    } 	 ")).
+Eval vm_compute in ("<<<M1769>>>" ++ check (runes_of_ascii "options { } packet Packet{char[] i64_ ,
+@tag(
+    255) match
+crc as i8i8{""{,}"" : trueish """" : Pad , ""a\\"" :
+Foo 1
+    , :packetx
+, """ ++ [128512]%N ++ runes_of_ascii """ : trueish , } , }")).
+Eval vm_compute in ("<<<M1772>>>" ++ check (runes_of_ascii "options { } packet Packet{char[] i64_ ,
+@tag(
+    255) match
+crc as i8i8{""{,}"" : trueish """" : Pad , ""a\\"" :
+Foo ,
+     :packetx
+, """ ++ [128512]%N ++ runes_of_ascii """ : trueish , } , }")).
+Eval vm_compute in ("<<<M4105>>>" ++ check (runes_of_ascii "
+MetaData	metadata
+{  }
+MetaData
+
+rootA	{ i8	i64_
+    ,roots options1
+`a\`,	lengthOf
+Header,
+
+    Z9_
+Foo
+
+,
+
+int16
+
+    BodyLength, 
+	// c
+	}")).
+Eval vm_compute in ("<<<M1378>>>" ++ check (runes_of_ascii "options // trailing space 
+{
+rootA =
+    ""\n"" ;	}options  {	} packet u {
+@tag(
+    255 ) repeat char// a // b
+len
+    // `tick` ""quote"" 'q'
+    ,
+}
+")).
+Eval vm_compute in ("<<<M4022>>>" ++ check (runes_of_ascii "
+packet
+
+    A {
+match
+    k as  n
+
+    {[
+    ""a""
+,
+    ""bb""
+    , ""c c"" 
+, 
+""d"" , ""e""
+,
+
+""f""
+    ]
+
+    :
+    B 2
+:
+    C
+	}
+
+    ,	}")).
+Eval vm_compute in ("<<<M3857>>>" ++ check (runes_of_ascii "packet A {
+    match k as n {
+        [
+            1, 22, ""c c"", 4, 5,
+            ""f"", 7, 8, ""i"", 10
+        ] : B,
+        2 : C,
+    },
+}")).
+Eval vm_compute in ("<<<M4069>>>" ++ check (runes_of_ascii "packet A {
+    match k as n {
+        [
+            ""a"", 22, ""c c"", 4, ""e"",
+            66, ""g"", 8
+        ] : B,
+        2 : C,
+    },
+}")).
+Eval vm_compute in ("<<<M880>>>" ++ check (runes_of_ascii "
+root packet Logon { repeat char[] i64_`
+`,
+@calculatedFrom( ""1"" )int , }
+packet lengthOf
+    { repeat
+char[ // 50% %s
+007
+] u8x , }")).
+Eval vm_compute in ("<<<M365>>>" ++ check (runes_of_ascii "packet matchKey {
+@calculatedFrom(
+""a	b""
+) As @calculatedFrom(// packet A { u8 x, }
+""x y"" ) `" ++ [28040; 24687; 31867; 22411]%N ++ runes_of_ascii "`
+// packet A { u8 x, }
+//x
+,
+}")).
+Eval vm_compute in ("<<<M3266>>>" ++ check (runes_of_ascii "MetaData metadata { // c
+} MetaData rootA { i8 i64_ , roots options1 `a\` , lengthOf Header , Z9_ Foo , int16 BodyLength , }")).
+Eval vm_compute in ("<<<M3298>>>" ++ check (runes_of_ascii "MetaData metadata { } MetaData rootA { i8 i64_ , roots options1 `a\` , lengthOf Header , Z9_ Foo // c
+, int16 BodyLength , }")).
+Eval vm_compute in ("<<<M4375>>>" ++ check (runes_of_ascii "
+
+  MetaData
+x_y_z{
+
+    tag	float // packet A { u8 x, }
+	`doc`,  i16 
+_x
+
+    `crlf
+line`,zchar[ 007	]f32a
+	,
+}
+
+")).
+Eval vm_compute in ("<<<M1776>>>" ++ check (runes_of_ascii "options { } packet Packet{char[] i64_ ,
+@tag(
+    255) match
+crc as i8i8{""{,}"" : trueish """" : Pad , ""a\\"" :
+Foo ,")).
+Eval vm_compute in ("<<<M3354>>>" ++ check (runes_of_ascii "MetaData float { uint8 BodyLength , } MetaData charz { float32 trueish `a\` , i16 metadata `say ""hi""` , } // c
+")).
+Eval vm_compute in ("<<<M3337>>>" ++ check (runes_of_ascii "MetaData float { uint8 BodyLength , } MetaData charz {
+// c
+float32 trueish `a\` , i16 metadata `say ""hi""` , }")).
+Eval vm_compute in ("<<<M427>>>" ++ check (runes_of_ascii "options  {	_x
+=
+""" ++ [233]%N ++ runes_of_ascii "t" ++ [233]%N ++ runes_of_ascii """	Pad
+=
+'0';uint8x
+    // a // b
+    = true ;
+} MetaData
+    charz
+{ falsey falsey , }")).
+Eval vm_compute in ("<<<M3877>>>" ++ check (runes_of_ascii "  MetaData
+a1
+    { f32 charz `` 
+,msg_type	x_y_z	,
+leftPad msg_type,
+uint8x
+leftPad  , string falsey,	}
+")).
+Eval vm_compute in ("<<<M79>>>" ++ check (runes_of_ascii "packet f32a { match charz// 50% %s
+as As
+{ ""packet"" :
+len
+[ ""abc""] : Z9_ 3 : falsey
+    ,
+    } , }
+")).
+Eval vm_compute in ("<<<M3748>>>" ++ check (runes_of_ascii "options {
+    _x = """ ++ [233]%N ++ runes_of_ascii "t" ++ [233]%N ++ runes_of_ascii """
+    Pad = '0';
+    uint8x = true;
+}
+
+MetaData charz {
+    falsey falsey,
+}")).
+Eval vm_compute in ("<<<M2962>>>" ++ check (runes_of_ascii "packet A {
+  match k as n {
+    [""a"", ""bb"", ""c c"", ""d"", ""e"", ""f"", ""g"", ""h""] : B
+    2 : C
+  },
+}")).
+Eval vm_compute in ("<<<M3476>>>" ++ check (runes_of_ascii "
+root  packet
+
+    P
+    {
+u16
+
+    a
+,u32 Sum
+
+    @calculatedFrom(	""CRC32""
+
+)
+	,
+	}
+")).
+Eval vm_compute in ("<<<M2949>>>" ++ check (runes_of_ascii "packet A {
+  match k as n {
+    [""a"", ""bb"", ""c c"", ""d"", ""e"", ""f"", ""g""] : B
+    2 : C
+  },
+}")).
+Eval vm_compute in ("<<<M1180>>>" ++ check (runes_of_ascii "options
+{} MetaData asx{float64 x_y_z , } options {stringy = '0'
+;// packet A { u8 x, }
+}")).
+Eval vm_compute in ("<<<M2241>>>" ++ check (runes_of_ascii "MetaData _x {string x `// not a comment` string ,
+i64_ // trailing space 
+`a\` ,
+    }
+")).
+Eval vm_compute in ("<<<M2214>>>" ++ check (runes_of_ascii "MetaData  {string x `// not a comment` , string
+i64_ // trailing space 
+`a\` ,
+    }
+")).
+Eval vm_compute in ("<<<M2943>>>" ++ check (runes_of_ascii "packet A {
+  match k as n {
+    [""a"", ""bb"", 007, ""d"", ""e"", 66] : B,
+    2 : C
+  },
+}")).
+Eval vm_compute in ("<<<M174>>>" ++ check (runes_of_ascii "packet// a // b
+o {
+    // " ++ [128512]%N ++ runes_of_ascii " emoji
+    }
+MetaData len { // packet A { u8 x, }
+}
+")).
+Eval vm_compute in ("<<<M3820>>>" ++ check (runes_of_ascii "options {
+    FixedStringPadFromLeft = true;
+}
+
+root packet P {
+    char[4] z,
+}")).
+Eval vm_compute in ("<<<M4551>>>" ++ check (runes_of_ascii "root	packet i8i8 {} 	 // packet A { u8 x, }
+	packet 
+f32a
+    { BodyLength, }")).
+Eval vm_compute in ("<<<M3370>>>" ++ check (runes_of_ascii "MetaData _x { f64 // c
+charz `tab	here` , } options { BodyLength = """ ++ [233]%N ++ runes_of_ascii "t" ++ [233]%N ++ runes_of_ascii """ ; }")).
+Eval vm_compute in ("<<<M2917>>>" ++ check (runes_of_ascii "packet A {
+  match k as n {
+    [""a"", ""bb"", 007, ""d""] : B,
+    2 : C
+  },
+}")).
+Eval vm_compute in ("<<<M3620>>>" ++ check (runes_of_ascii "packet A {
+    B b `x
+    `,
+    B `x
+    `,
+    repeat B bs `x
+    `,
+}")).
+Eval vm_compute in ("<<<M2905>>>" ++ check (runes_of_ascii "packet A {
+  match k as n {
+    [""a"", ""bb"", 007] : B
+    2 : C
+  },
+}")).
+Eval vm_compute in ("<<<M3416>>>" ++ check (runes_of_ascii "packet o { @tag( 4294967296 ) options1 @lengthOf( // c
+u8x ) `" ++ [233]%N ++ runes_of_ascii "` , }")).
+Eval vm_compute in ("<<<M1345>>>" ++ check (runes_of_ascii "//	t
+MetaData
+//	t
+// packet A { u8 x, }
+x{ u64 /// triple
+len ,}")).
+Eval vm_compute in ("<<<M2888>>>" ++ check (runes_of_ascii "packet A {
+  match k as n {
+    [""a"", ""bb""] : B
+    2 : C
+  },
+}")).
+Eval vm_compute in ("<<<M1220>>>" ++ check (runes_of_ascii "options{ lengthOf= zchar[ 255
+    ] BodyLength =
+    true} 	 ")).
+Eval vm_compute in ("<<<M3449>>>" ++ check (runes_of_ascii "root packet P {
+    hdr {
+        u8 a,
+    },
+    u8 x,
+}
+")).
+Eval vm_compute in ("<<<M1036>>>" ++ check (runes_of_ascii "// trailing space 
+packet zchar //x
+{
+    // " ++ [27880; 37322]%N ++ runes_of_ascii "
+    }
+
+")).
+Eval vm_compute in ("<<<M2799>>>" ++ check (runes_of_ascii "' ' char match ( uint32 u8 root : uint32 ) as u8 int32")).
+Eval vm_compute in ("<<<M107>>>" ++ check (runes_of_ascii "packet  uint8x{ Logon @calculatedFrom(
+"""" )
+    ,}
+")).
+Eval vm_compute in ("<<<M321>>>" ++ check (runes_of_ascii "packet a1 { @tag(255) repeat
+string Pad `a\` , }")).
+Eval vm_compute in ("<<<M2310>>>" ++ check (runes_of_ascii "
+MetaData Pad{
+u32 `line1
+line2` rootA ,
+    }
+")).
+Eval vm_compute in ("<<<M4348>>>" ++ check (runes_of_ascii "
+root packet
+A
+	{
+u8
+
+x
+
+`a
+    b
+  c` 
+, 
+} ")).
+Eval vm_compute in ("<<<M4109>>>" ++ check (runes_of_ascii "
+options{falsey
+=
+
+' '
+;	roots =false ; }
+
+")).
+Eval vm_compute in ("<<<M1437>>>" ++ check (runes_of_ascii "packet calculatedFrom
+{ @calculatedFrom(")).
+Eval vm_compute in ("<<<M3238>>>" ++ check (runes_of_ascii "MetaData zchar {
+// c
+zchar[ 3 ] Pad , }")).
+Eval vm_compute in ("<<<M3096>>>" ++ check (runes_of_ascii "options {
+    a = ""\
+"";
+    b = ""\
+""
+}")).
+Eval vm_compute in ("<<<M2724>>>" ++ check (runes_of_ascii "Y65x" ++ [1125; 65533; 65533; 0; 65533; 223]%N ++ runes_of_ascii "Q	" ++ [7; 65533]%N ++ runes_of_ascii "f" ++ [65533; 65533]%N ++ runes_of_ascii "D" ++ [11; 65533]%N ++ runes_of_ascii "6" ++ [65533; 24; 65533; 26]%N ++ runes_of_ascii "g	" ++ [65533]%N ++ runes_of_ascii "g" ++ [65533; 65533; 65533]%N ++ runes_of_ascii "A" ++ [65533]%N ++ runes_of_ascii "j" ++ [65533]%N)).
+Eval vm_compute in ("<<<M3089>>>" ++ check (runes_of_ascii "root packet A {
+    u8 x `%%d%!`,
+}")).
+Eval vm_compute in ("<<<M2620>>>" ++ check (runes_of_ascii "packet A { B { @tag(1) u8 x, }, }")).
+Eval vm_compute in ("<<<M672>>>" ++ check (runes_of_ascii "options {
+BodyLength = ' ' ; }
+")).
+Eval vm_compute in ("<<<M3204>>>" ++ check (runes_of_ascii "MetaData M {
+}// c
+packet A {}")).
+Eval vm_compute in ("<<<M139>>>" ++ check (runes_of_ascii "packet // 50% %s
+Header{ }
+")).
+Eval vm_compute in ("<<<M2642>>>" ++ check (runes_of_ascii "packet A { @tag(x) u8 x, }")).
+Eval vm_compute in ("<<<M4326>>>" ++ check (runes_of_ascii "packet
+	A { 
+} 	 // c" ++ [65279]%N ++ runes_of_ascii "
  
 ")).
-Eval vm_compute in ("<<<M1019>>>" ++ check (runes_of_ascii "// c" ++ [8239]%N)).
+Eval vm_compute in ("<<<M441>>>" ++ check (runes_of_ascii "options { u8x= u8 ;}
+
+")).
+Eval vm_compute in ("<<<M1108>>>" ++ check (runes_of_ascii "
+packet
+falsey { }
+")).
+Eval vm_compute in ("<<<M2665>>>" ++ check (runes_of_ascii "MetaData M { x y, }")).
+Eval vm_compute in ("<<<M3139>>>" ++ check (runes_of_ascii "packet A {
+}
+// c" ++ [8232]%N)).
+Eval vm_compute in ("<<<M1083>>>" ++ check (runes_of_ascii "root packet u  {}")).
+Eval vm_compute in ("<<<M273>>>" ++ check (runes_of_ascii "  packet a1 { }
+")).
+Eval vm_compute in ("<<<M7>>>" ++ check (runes_of_ascii "// @lengthOf(
+")).
+Eval vm_compute in ("<<<M846>>>" ++ check (runes_of_ascii "options	{
+}")).
+Eval vm_compute in ("<<<M2705>>>" ++ check (runes_of_ascii "// a
+// b
+")).
+Eval vm_compute in ("<<<M3724>>>" ++ check (runes_of_ascii "  // c x")).
+Eval vm_compute in ("<<<M2471>>>" ++ check (runes_of_ascii "falsey")).
+Eval vm_compute in ("<<<M2541>>>" ++ check (runes_of_ascii "`a
+b`")).
+Eval vm_compute in ("<<<M2520>>>" ++ check (runes_of_ascii "// x")).
+Eval vm_compute in ("<<<M2521>>>" ++ check (runes_of_ascii "//")).
+Eval vm_compute in ("<<<M2527>>>" ++ check (runes_of_ascii """a")).
+Eval vm_compute in ("<<<M2702>>>" ++ check (runes_of_ascii "")).
